@@ -18,9 +18,13 @@ EXPLANATION = (
     "relay and the originator (decided on the CFG under the assumption 'flag set and budget used up', so extra conjuncts are "
     "seen); the build retry count strictly decreases and gives up by removing the circuit, and the retry cache is released "
     "only for a READY circuit, after the hop's answer was verified, or when a new one is armed / the circuit removed; entries leave "
-    "exit_sockets only through remove_exit_socket (the one place that closes the outside sockets). Conditions are decided on the "
-    "CFG under assumptions (any spelling, aliases, decide-then-act, helpers, unrolled literal loops). The time bound itself and loss "
-    "patterns are not explored (timers/schedules)."
+    "exit_sockets only through remove_exit_socket (the one place that closes the outside sockets) and a new exit socket is never "
+    "stored under an id that is still in the table (the old socket would drop out unclosed); from counting the joined circuits to "
+    "storing the new exit socket nothing suspends (no await of anything but a never-suspending repository coroutine), so a burst of "
+    "creates cannot pass the limit together. Conditions are decided on the CFG under assumptions (any spelling, aliases, "
+    "decide-then-act incl. verdict records / Enum tags / tuples followed per value, NEW helpers followed with the assumption carried "
+    "through their arguments, unrolled literal loops, comprehension / filter fed loops, match statements as if-chains, operator / "
+    "functools spellings). The time bound itself and loss patterns are not explored (timers/schedules)."
 )
 
 TC = "ipv8/messaging/anonymization/community.py"
@@ -60,12 +64,35 @@ class _Expand(ast.NodeTransformer):
         if not isinstance(n.ctx, ast.Load) or self.depth <= 0:
             return n
         d = single_def(self.fi, n.id)
+        if d is not None and d[1] is not None:
+            d = self._element(n.id, d)                              # `a, b = pair` -> pair[0], pair[1]
         if d is None or d[1] is not None:
             return n
         v = strip_cast(d[0])
         if any(isinstance(x, (ast.Await, ast.Yield, ast.YieldFrom, ast.NamedExpr, ast.Lambda)) for x in ast.walk(v)):
             return n
         return _Expand(self.fi, self.depth - 1).visit(_clone(v))
+
+
+def _expand_element(self, name: str, d):
+    """single_def (value, index) of a tuple-unpacked local as (element expression, None); None when there is a starred part in the way."""
+    st = local_defs(self.fi, name)[0][0]
+    if not isinstance(st, ast.Assign) or len(st.targets) != 1 or not isinstance(st.targets[0], (ast.Tuple, ast.List)):
+        return None
+    elts = st.targets[0].elts
+    if any(isinstance(x, ast.Starred) for x in elts[:d[1] + 1]) or not (d[1] < len(elts) and isinstance(elts[d[1]], ast.Name) and elts[d[1]].id == name):
+        return None
+    v = strip_cast(d[0])
+    if isinstance(v, (ast.Tuple, ast.List)):
+        if any(isinstance(x, ast.Starred) for x in v.elts[:d[1] + 1]) or d[1] >= len(v.elts):
+            return None
+        return v.elts[d[1]], None
+    if isinstance(v, (ast.Name, ast.Attribute)):
+        return ast.Subscript(value=_clone(v), slice=ast.Constant(value=d[1]), ctx=ast.Load()), None
+    return None
+
+
+_Expand._element = _expand_element
 
 
 def _texts(fi: FuncInfo, e: ast.AST | None) -> list[str]:
@@ -109,10 +136,49 @@ def _lin(e: ast.AST, sign: int, terms: dict, k: list) -> None:
     if isinstance(e, ast.Constant) and isinstance(e.value, (int, float)) and not isinstance(e.value, bool):
         k[0] += sign * e.value
         return
+    parts = _sum_terms(e)
+    if parts is not None:
+        for x in parts:
+            _lin(x, sign, terms, k)
+        return
     t = norm(e)
     if t == "time()":
         t = "time.time()"
     terms[t] = terms.get(t, 0) + sign
+
+
+def _sum_terms(e: ast.AST):
+    """The summands of sum((a, b)), sum(map(f, (x, y))), sum(f(t) for t in (x, y)), reduce(add, ...[, 0]) over a literal tuple / list; else None."""
+    if not (isinstance(e, ast.Call) and not e.keywords and e.args and not any(isinstance(a, ast.Starred) for a in e.args)):
+        return None
+    fn = chain(e.func)
+    seq = None
+    if fn == "sum" and len(e.args) in (1, 2):
+        seq, start = e.args[0], e.args[1] if len(e.args) == 2 else None
+    elif fn in ("reduce", "functools.reduce") and len(e.args) in (2, 3) and chain(e.args[0]) in ("add", "operator.add"):
+        seq, start = e.args[1], e.args[2] if len(e.args) == 3 else None
+    if seq is None or start is not None and not (isinstance(start, ast.Constant) and start.value == 0 and not isinstance(start.value, bool)):
+        return None
+    seq = strip_cast(seq)
+    if isinstance(seq, (ast.Tuple, ast.List)) and seq.elts and not any(isinstance(x, ast.Starred) for x in seq.elts):
+        return list(seq.elts)
+    if isinstance(seq, ast.Call) and chain(seq.func) == "map" and len(seq.args) == 2 and not seq.keywords and isinstance(seq.args[0], (ast.Name, ast.Attribute)) \
+            and isinstance(strip_cast(seq.args[1]), (ast.Tuple, ast.List)) and strip_cast(seq.args[1]).elts \
+            and not any(isinstance(x, ast.Starred) for x in strip_cast(seq.args[1]).elts):
+        return [ast.Call(func=seq.args[0], args=[x], keywords=[]) for x in strip_cast(seq.args[1]).elts]
+    if isinstance(seq, (ast.GeneratorExp, ast.ListComp)) and len(seq.generators) == 1 and not seq.generators[0].ifs and not seq.generators[0].is_async \
+            and isinstance(seq.generators[0].target, ast.Name) and isinstance(strip_cast(seq.generators[0].iter), (ast.Tuple, ast.List)) \
+            and strip_cast(seq.generators[0].iter).elts and not any(isinstance(x, ast.Starred) for x in strip_cast(seq.generators[0].iter).elts):
+        var = seq.generators[0].target.id
+
+        class Put(ast.NodeTransformer):
+            def __init__(self_, v):  # noqa: N805
+                self_.v = v
+
+            def visit_Name(self_, n):  # noqa: N805
+                return _clone(self_.v) if n.id == var else n
+        return [Put(x).visit(_clone(seq.elt)) for x in strip_cast(seq.generators[0].iter).elts]
+    return None
 
 
 def _canon_sum(terms: dict, k) -> tuple[str, str]:
@@ -189,10 +255,15 @@ class _World:
     definitely has the other value, so reachability here over-approximates the runs that satisfy the assumption.
     """
 
-    def __init__(self, fi: FuncInfo, cfg, assume: dict, pinned=()) -> None:
+    def __init__(self, fi: FuncInfo, cfg, assume: dict, pinned=(), ctx: Ctx | None = None, params: dict | None = None, level: int = 0) -> None:
         self.fi, self.cfg, self.assume = fi, cfg, {}
         # pinned: CFG nodes (loop heads) whose bindings the assumption talks about ("for the entry of this iteration")
         self.pinned = set(pinned)
+        # ctx: lets the world follow calls of NEW helpers and recognise record / Enum classes (None: the function alone)
+        # params: parameter name -> (abstract values, truth values) the caller of this helper passes; level: helper nesting
+        self.ctx, self.params, self.level = ctx, dict(params or {}), level
+        self.bound: dict = {}
+        self.keys: list = []                                        # (declared key, value) incl. alias-expanded variants
         for key, v in assume.items():
             variants = [key]
             raw = getattr(key, "raw", None)
@@ -200,13 +271,48 @@ class _World:
                 variants.append(_K(raw[0], _expand_text(fi, raw[1]), _expand_text(fi, raw[2]), raw[3]))
             for kk in variants:
                 self.assume.setdefault(tuple(kk), v)
+                if raw is not None:
+                    self.keys.append((kk, v))
                 if raw is not None and raw[3] and getattr(kk, "flip", None) is not None:
                     self.assume.setdefault(tuple(kk.flip), not v)
         self._memo: dict = {}
         self._defs: dict = {}
+        self._hret: dict = {}
+        self._proj_nodes: dict = {}
+        self._fixed = None                                          # (local, abstract value, CFG node): the value the local has when that node runs
 
     # -- edges
+    def _cannot_raise(self, u) -> bool:
+        """The only thing that could raise at u is `T[k]` for a table / key pair assumed `k in T`: under the assumption it does not."""
+        if u.kind not in ("stmt", "cond") or u.ast is None or isinstance(u.ast, (ast.Raise, ast.Assert, ast.With, ast.AsyncWith)):
+            return False
+        k = ("exc", u.id)
+        if k not in self._memo:
+            ins = [kk for kk, v in self.assume.items() if kk[0] == "in" and v is True]
+            hit = []
+            if ins:
+                for x in ast.walk(u.ast):
+                    if isinstance(x, ast.Subscript) and isinstance(x.ctx, ast.Load) and \
+                            any(("in", a, b) in ins for a in _texts(self.fi, x.slice) for b in _texts(self.fi, x.value)) and self._stable(x, u):
+                        hit.append(x)
+            ok = False
+            if hit:
+                from ..cfg import expr_may_raise
+                probe = _clone(u.ast)
+                ids = {norm(h) for h in hit}
+
+                class Rep(ast.NodeTransformer):
+                    def visit_Subscript(self_, n):  # noqa: N805
+                        if isinstance(n.ctx, ast.Load) and norm(n) in ids:
+                            return ast.Name(id="_present_", ctx=ast.Load())
+                        return self_.generic_visit(n)
+                ok = not expr_may_raise(Rep().visit(probe))
+            self._memo[k] = ok
+        return self._memo[k]
+
     def _cut(self, u, lab, deep: bool) -> bool:
+        if lab == "exc":
+            return self._cannot_raise(u)
         if u.kind != "cond" or not isinstance(lab, bool):
             return False
         k = (u.id, deep)
@@ -223,7 +329,85 @@ class _World:
         return self._cut(u, lab, True)
 
     def reach(self, starts=None, *, cut_nodes=(), follow_exc: bool = True):
-        return self.cfg.reach(starts, cut_nodes=cut_nodes, cut_edge=self.cut, follow_exc=follow_exc)
+        base = self.cfg.reach(starts, cut_nodes=cut_nodes, cut_edge=self.cut, follow_exc=follow_exc)
+        for var in self._decision_vars():
+            base &= self._reach_tracking(var, starts, set(cut_nodes), follow_exc)
+        return base
+
+    # -- one decision variable followed along the paths (decide-then-act on a verdict with several possible values)
+    def _decision_vars(self) -> list[str]:
+        """Locals that hold a verdict: tested (itself, a field, an element) in some condition and assigned values this world can name."""
+        if "vars" not in self._memo:
+            self._memo["vars"] = []
+            cand = []
+            for u in self.cfg.nodes:
+                if u.kind != "cond" or u.ast is None:
+                    continue
+                for x in ast.walk(u.ast):
+                    b = strip_cast(x.value) if isinstance(x, (ast.Attribute, ast.Subscript)) else x
+                    if isinstance(b, ast.Name) and isinstance(b.ctx, ast.Load) and b.id not in cand and not is_param(self.fi, b.id) and self.defs(b.id):
+                        cand.append(b.id)
+            out = []
+            for v in cand[:12]:
+                if any(not self.cfg.nodes_for(st) or any(isinstance(x, ast.NamedExpr) and x.target.id == v for x in ast.walk(st)) for st, _ in self.defs(v)):
+                    continue                                        # a binding without a CFG node of its own (walrus inside a test): not followed
+                alts = self._alts(v)
+                vals = {a for al in alts.values() if al for a in al}
+                if len(vals) >= 2:
+                    out.append(v)
+            self._memo["vars"] = out[:6]
+        return self._memo["vars"]
+
+    def _alts(self, var: str) -> dict:
+        """definition node of var -> the abstract values it can assign there (None: unknown)."""
+        k = ("alts", var)
+        if k not in self._memo:
+            out = {}
+            for st, val in self.defs(var):
+                for d in self.cfg.nodes_for(st):
+                    avs = None
+                    if val is not None and d.kind == "stmt" and d not in out:
+                        avs = self._absvals(val, d, 0)
+                        if not avs or None in avs or len(avs) > 8:
+                            avs = None
+                    out[d] = sorted(avs, key=_av_key) if avs else None
+            self._memo[k] = out
+        return self._memo[k]
+
+    def _reach_tracking(self, var: str, starts, cut_nodes: set, follow_exc: bool) -> set:
+        """Nodes reachable when the value last assigned to `var` is remembered along the path and decides the tests on it."""
+        alts = self._alts(var)
+        todo = [(s_, None) for s_ in ([self.cfg.entry] if starts is None else list(starts)) if s_ not in cut_nodes]
+        seen = set()
+        while todo:
+            u, tag = todo.pop()
+            if (u, tag) in seen:
+                continue
+            seen.add((u, tag))
+            for v, lab in u.succ:
+                if v in cut_nodes or lab == "exc" and not follow_exc:
+                    continue
+                if self._cut_given(u, lab, var, tag):
+                    continue
+                if u in alts and lab != "exc":
+                    for t in (alts[u] or [None]):
+                        todo.append((v, t))
+                else:
+                    todo.append((v, tag))
+        return {u for u, _ in seen}
+
+    def _cut_given(self, u, lab, var: str, av) -> bool:
+        if av is None or u.kind != "cond" or not isinstance(lab, bool):
+            return self._cut(u, lab, True)
+        k = ("given", u.id, var, av)
+        if k not in self._memo:
+            self._fixed = (var, av, u)
+            try:
+                self._memo[k] = self.ev(u.ast, u, True)
+            finally:
+                self._fixed = None
+        vals = self._memo[k]
+        return vals == {True} and lab is False or vals == {False} and lab is True
 
     def reaches(self, site: ast.AST, starts=None, *, cut_nodes=(), follow_exc: bool = True) -> bool:
         r = self.reach(starts, cut_nodes=cut_nodes, follow_exc=follow_exc)
@@ -248,8 +432,27 @@ class _World:
                     if id(st) not in seen:
                         seen.add(id(st))
                         out.append((st, v if idx is None and isinstance(st, (ast.Assign, ast.AnnAssign)) else None))
+                # `a, b = <record / tuple / helper call>`: the name is element idx of the value (no starred target)
+                for i, (st, v) in enumerate(out):
+                    if v is not None or not isinstance(st, ast.Assign) or len(st.targets) != 1:
+                        continue
+                    t = st.targets[0]
+                    if not isinstance(t, (ast.Tuple, ast.List)) or any(not isinstance(x, ast.Name) for x in t.elts):
+                        continue
+                    idxs = [k for k, x in enumerate(t.elts) if x.id == c]
+                    if len(idxs) == 1:
+                        out[i] = (st, self._proj_node(st.value, idxs[0]))
             self._defs[c] = out
         return self._defs[c]
+
+    def _proj_node(self, value: ast.AST, idx: int) -> ast.AST:
+        """The synthetic expression `value[idx]` (one object per (value, idx), so it can be used as an identity)."""
+        k = (id(value), idx)
+        if k not in self._proj_nodes:
+            n = ast.Subscript(value=value, slice=ast.Constant(value=idx), ctx=ast.Load())
+            self._proj_nodes[k] = ast.copy_location(n, value)
+            ast.fix_missing_locations(n)
+        return self._proj_nodes[k]
 
     def _def_nodes(self, c: str):
         return {n for st, _ in self.defs(c) for n in self.cfg.nodes_for(st)}
@@ -289,14 +492,25 @@ class _World:
         if isinstance(e, ast.Dict):
             return {bool(e.keys)}
         if isinstance(e, ast.Compare) and len(e.ops) == 1 and isinstance(e.ops[0], (ast.Is, ast.IsNot, ast.Eq, ast.NotEq)):
-            # a local compared with a constant (`verdict is not None`, `tag == 'idle'`): decided from what was assigned to it
+            # a local (or a field of a record held in a local, or the result of a NEW helper) compared with a constant /
+            # Enum member (`verdict is not None`, `tag == 'idle'`, `v.kind is _Kind.DROP`): decided from what was assigned
             l, r = strip_cast(e.left), strip_cast(e.comparators[0])
-            var, cst = (l, r) if isinstance(r, ast.Constant) else (r, l) if isinstance(l, ast.Constant) else (None, None)
-            if isinstance(var, ast.Name) and self.defs(var.id):
+            cl, cr = self._const_like(l), self._const_like(r)
+            var, cst = (l, cr) if cr is not None else (r, cl) if cl is not None else (None, None)
+            if var is not None and _len_arg(var) is not None and cst[0] == "c" and isinstance(e.ops[0], (ast.Eq, ast.NotEq)) and self._tracked(_len_arg(var)) \
+                    and deep and depth < 4:
+                out = set()
+                for av in self._absvals(_len_arg(var), node, depth):
+                    n_ = _len_of(av)
+                    out.add(None if n_ is None else ((n_ == cst[1]) != isinstance(e.ops[0], ast.NotEq)))
+                if out and None not in out:
+                    return out
+            elif var is not None and self._tracked(var):
                 neg = isinstance(e.ops[0], (ast.IsNot, ast.NotEq))
+                ident = isinstance(e.ops[0], (ast.Is, ast.IsNot))
                 out = set()
                 for av in (self._absvals(var, node, depth) if deep and depth < 4 else {None}):
-                    v = self._cmp_abs(av, cst.value)
+                    v = self._cmp_abs(av, cst, ident)
                     out.add(None if v is None else (not v if neg else v))
                 if out and None not in out:
                     return out                                      # otherwise: the comparison may still be an assumed atom
@@ -319,6 +533,21 @@ class _World:
             if t - {True}:
                 out |= self.ev(e.orelse, node, deep, depth)
             return out
+        if isinstance(e, (ast.Call, ast.Await)) and deep and depth < 4:
+            t = self._call_truth(e, node, depth)
+            if t is not None:
+                return t
+        if isinstance(e, (ast.Attribute, ast.Subscript)) and deep and depth < 4 and self._tracked(e) and not self.defs(chain(e) or "?"):
+            pr = self._proj(e, node, depth)                         # a field of a record / element of a tuple built in this function
+            if pr is not None and None not in pr[1]:
+                return set(pr[1])
+        if self._fixed is not None and isinstance(e, ast.Name) and e.id == self._fixed[0] and node is self._fixed[2]:
+            t = self._truth_of(self._fixed[1])
+            if t is not None:
+                return {t}
+        if isinstance(e, ast.Name) and e.id in self.params and not self.defs(e.id):
+            a = self.atom(e)
+            return {a} if a is not None else set(self.params[e.id][1])
         c = chain(e) if isinstance(e, (ast.Name, ast.Attribute)) else None
         if c is not None and self.defs(c) and (isinstance(e, ast.Name) or not self._stable(e, node)):
             # a local, or an attribute that is (re)assigned on a path to this use: its value is what was assigned
@@ -349,7 +578,11 @@ class _World:
         entry, ds = self._rdefs(c, node, self.cut_direct)
         out = set()
         if entry and ("." in c or is_param(self.fi, c)):
-            out.add(self.atom(e))                                   # value on entry
+            a = self.atom(e)                                        # value on entry
+            if a is None and c in self.params:
+                out |= set(self.params[c][1])
+            else:
+                out.add(a)
         for d, val in ds:
             out |= {None} if val is None else self.ev(val, d, True, depth + 1)
         return out or {None}
@@ -364,11 +597,105 @@ class _World:
             out |= {None} if val is None else self.ev(val, d, True, 1)
         return out or {None}
 
-    # -- abstract values of locals: constants, non-empty / empty literals, "some object"
-    def _absvals(self, e: ast.AST, node, depth: int) -> set:
+    # -- abstract values: ("c", constant) | ("e", Enum class, member) | ("t",)/("f",) non-empty / empty literal | ("n",) some
+    #    object | ("r", record class, ((field, values, truths), ...)) | ("u", ((values, truths), ...)) tuple literal | None unknown
+    def _tracked(self, e: ast.AST) -> bool:
+        """e is something whose value this world can follow: a local / bound parameter, a field or element of one, a call."""
+        e = strip_cast(e)
+        if isinstance(e, ast.Await):
+            e = strip_cast(e.value)
+        if isinstance(e, ast.Name):
+            return bool(self.defs(e.id)) or e.id in self.params
+        if isinstance(e, ast.Attribute):
+            return self._tracked(e.value) and not isinstance(strip_cast(e.value), ast.Attribute)
+        if isinstance(e, ast.Subscript):
+            return isinstance(strip_cast(e.slice), ast.Constant) and self._tracked(e.value)
+        return isinstance(e, ast.Call) and self.ctx is not None
+
+    def _cls_of(self, e: ast.AST):
+        if self.ctx is None or not isinstance(e, (ast.Name, ast.Attribute)):
+            return None
+        try:
+            return self.ctx.repo.resolve_class_expr(self.fi.module, e)
+        except Exception:  # noqa: BLE001
+            return None
+
+    def _const_like(self, e: ast.AST):
+        """("c", v) for a constant, ("e", class, member) for `EnumClass.MEMBER`, else None."""
         e = strip_cast(e)
         if isinstance(e, ast.Constant):
-            return {("c", e.value)}
+            return ("c", e.value)
+        if isinstance(e, ast.UnaryOp) and isinstance(e.op, ast.USub) and isinstance(e.operand, ast.Constant) and isinstance(e.operand.value, (int, float)) \
+                and not isinstance(e.operand.value, bool):
+            return ("c", -e.operand.value)
+        if isinstance(e, ast.Attribute):
+            cls = self._cls_of(e.value)
+            if cls is not None and _enum_kind(cls) is not None and e.attr in cls.attrs and not e.attr.startswith("_"):
+                return ("e", cls, e.attr)
+        return None
+
+    def _record(self, call: ast.Call, node, depth: int):
+        """("r", class, fields) for `Record(...)` of a NamedTuple / dataclass (fields evaluated where the call is)."""
+        cls = self._cls_of(call.func)
+        if cls is None:
+            return None
+        names = _record_fields(self.ctx.repo, cls)
+        if names is None or any(isinstance(a, ast.Starred) for a in call.args) or any(k.arg is None for k in call.keywords) or len(call.args) > len(names):
+            return None
+        given = dict(zip(names, call.args))
+        for k in call.keywords:
+            if k.arg not in names or k.arg in given:
+                return None
+            given[k.arg] = k.value
+        fields = []
+        for nme in names:
+            x = given.get(nme)
+            if x is None:
+                x = next((c.attrs[nme] for c in cls.mro() if nme in c.attrs), None)
+                if x is not None and not isinstance(strip_cast(x), ast.Constant):
+                    x = None                                        # field(default_factory=...) and the like
+            if x is None:
+                fields.append((nme, frozenset({None}), frozenset({None})))
+            else:
+                fields.append((nme, frozenset(self._absvals(x, node, depth + 1)), frozenset(self.ev(x, node, True, depth + 1))))
+        return ("r", cls, tuple(fields))
+
+    def _proj(self, e: ast.AST, node, depth: int):
+        """(values, truths) of `x.field` / `x[k]` where x holds records / tuple literals built here; None when x may be anything else."""
+        base = strip_cast(e.value)
+        if isinstance(e, ast.Attribute):
+            sel = e.attr
+        else:
+            sel = strip_cast(e.slice).value if isinstance(strip_cast(e.slice), ast.Constant) else None
+            if not isinstance(sel, int) or isinstance(sel, bool):
+                return None
+        vals, truths = set(), set()
+        for av in self._absvals(base, node, depth + 1):
+            hit = None
+            if av is not None and av[0] == "r":
+                if isinstance(sel, str):
+                    hit = next((f for f in av[2] if f[0] == sel), None)
+                elif _is_namedtuple(av[1]) and 0 <= sel < len(av[2]):
+                    hit = av[2][sel]
+                if hit is not None:
+                    hit = hit[1:]
+            elif av is not None and av[0] == "u" and isinstance(sel, int) and 0 <= sel < len(av[1]):
+                hit = av[1][sel]
+            if hit is None:
+                return None
+            vals |= hit[0]
+            truths |= hit[1]
+        return (vals, truths) if vals else None
+
+    def _absvals(self, e: ast.AST, node, depth: int) -> set:
+        e = strip_cast(e)
+        cl = self._const_like(e)
+        if cl is not None:
+            return {cl}
+        if self._fixed is not None and isinstance(e, ast.Name) and e.id == self._fixed[0] and node is self._fixed[2]:
+            return {self._fixed[1]}
+        if isinstance(e, ast.Tuple) and e.elts and depth < 4 and not any(isinstance(x, ast.Starred) for x in e.elts):
+            return {("u", tuple((frozenset(self._absvals(x, node, depth + 1)), frozenset(self.ev(x, node, True, depth + 1))) for x in e.elts))}
         if isinstance(e, (ast.Tuple, ast.List, ast.Set)):
             return {("t",) if e.elts else ("f",)}
         if isinstance(e, ast.Dict):
@@ -385,23 +712,451 @@ class _World:
             return out
         if isinstance(e, ast.Name) and self.defs(e.id) and depth < 4:
             entry, ds = self._rdefs(e.id, node, self.cut_direct)
-            out = {None} if entry else set()
+            out = set()
+            if entry:
+                out |= set(self.params[e.id][0]) if e.id in self.params else {None}
             for d, val in ds:
                 out |= {None} if val is None else self._absvals(val, d, depth + 1)
             return out or {None}
+        if isinstance(e, ast.Name) and e.id in self.params:
+            return set(self.params[e.id][0])
+        if isinstance(e, (ast.Attribute, ast.Subscript)) and depth < 4 and self._tracked(e) and not self.defs(chain(e) or "?"):
+            pr = self._proj(e, node, depth)
+            return set(pr[0]) if pr is not None else {None}
+        if isinstance(e, (ast.Call, ast.Await)) and depth < 4 and self.ctx is not None:
+            call = strip_cast(e.value) if isinstance(e, ast.Await) else e
+            if isinstance(call, ast.Call):
+                if not isinstance(e, ast.Await):
+                    rec = self._record(call, node, depth)
+                    if rec is not None:
+                        return {rec}
+                hr = self._helper_returns(call, node, isinstance(e, ast.Await))
+                if hr is not None:
+                    out = set()
+                    for w, r in hr:
+                        if r is None or r.value is None:
+                            out.add(("c", None))
+                        else:
+                            for n in w.cfg.nodes_for(r):
+                                out |= w._absvals(r.value, n, depth + 1)
+                    return out or {None}
         return {None}
 
     @staticmethod
-    def _cmp_abs(av, cv):
-        """Is the abstract value equal to / identical with the constant cv?  (None = unknown)"""
+    def _truth_of(av):
+        if av is None or av[0] == "n":
+            return None
+        if av[0] == "c":
+            return bool(av[1])
+        if av[0] in ("t", "u"):
+            return True
+        if av[0] == "f":
+            return False
+        if av[0] == "e":
+            return True if _enum_kind(av[1]) == "plain" else None
+        if av[0] == "r":
+            return True if (_is_namedtuple(av[1]) and av[2] or not _is_namedtuple(av[1])) and not any(c.methods.get("__bool__") or c.methods.get("__len__") for c in av[1].mro()) else None
+        return None
+
+    def _call_truth(self, e: ast.AST, node, depth: int):
+        """Truth values of a call the world can look into: Record(...), isinstance(local, Class), a NEW helper (all its returns)."""
+        awaited = isinstance(e, ast.Await)
+        call = strip_cast(e.value) if awaited else e
+        if not isinstance(call, ast.Call) or self.ctx is None:
+            return None
+        if not awaited and isinstance(call.func, ast.Name) and call.func.id == "isinstance" and len(call.args) == 2 and not call.keywords \
+                and self._tracked(call.args[0]) and not isinstance(strip_cast(call.args[0]), ast.Call):
+            want = strip_cast(call.args[1])
+            classes = [self._cls_of(x) for x in (want.elts if isinstance(want, ast.Tuple) else [want])]
+            if any(c is None for c in classes):
+                return None
+            out = set()
+            for av in self._absvals(call.args[0], node, depth + 1):
+                if av is None:
+                    return None
+                if av[0] in ("r", "e"):
+                    out.add(any(k in av[1].mro() for k in classes))
+                elif av[0] == "c" and av[1] is None:
+                    out.add(False)
+                else:
+                    return None
+            return out or None
+        if not awaited:
+            rec = self._record(call, node, depth)
+            if rec is not None:
+                return {self._truth_of(rec)}
+        hr = self._helper_returns(call, node, awaited)
+        if hr is None:
+            return None
+        out = set()
+        for w, r in hr:
+            if r is None or r.value is None:
+                out.add(False)
+            else:
+                for n in w.cfg.nodes_for(r):
+                    out |= w.ev(r.value, n, True, depth + 1)
+        return out or None
+
+    def _helper_returns(self, call: ast.Call, node, awaited: bool = False):
+        """
+        [(world of the helper, return statement | None = falls off the end)] for a call of NEW helper(s): the returns that can be
+        taken when the caller's assumption holds.  The assumption follows the arguments (the argument expression is replaced by
+        the parameter name; a condition about anything the helper cannot see is dropped = unknown there), the parameters carry the
+        abstract / truth values of the arguments.  None: not a call this world can look into.
+        """
+        if self.ctx is None or self.level >= 2:
+            return None
+        k = (id(call), node.id if node is not None else -1, awaited)
+        if k in self._hret:
+            return self._hret[k]
+        self._hret[k] = None                                        # recursion guard
+        ts = _new_helper_targets(self.ctx.repo, self.fi, call)
+        out = []
+        for g0 in ts:
+            g = _view(self.ctx, g0)
+            if any(isinstance(n, (ast.Yield, ast.YieldFrom)) for n in walk_no_nested(g.node)) or bool(g.is_async) != awaited \
+                    or any(isinstance(a, ast.Starred) for a in call.args) or any(kw.arg is None for kw in call.keywords) \
+                    or g.node.args.vararg is not None or g.node.args.kwarg is not None:
+                out = None
+                break
+            bound = _bind_args(g, call)
+            params = {}
+            for pname, a in bound.items():
+                params[pname] = (frozenset(self._absvals(a, node, 1)), frozenset(self.ev(a, node, True, 1)))
+            args = g.node.args
+            pos = args.posonlyargs + args.args
+            for prm, dflt in list(zip(pos[len(pos) - len(args.defaults):], args.defaults)) + [(p_, d_) for p_, d_ in zip(args.kwonlyargs, args.kw_defaults) if d_ is not None]:
+                if prm.arg not in params and isinstance(dflt, ast.Constant):
+                    params[prm.arg] = (frozenset({("c", dflt.value)}), frozenset({bool(dflt.value)}))
+            assume = {}
+            for key, v in self.keys:
+                k2 = self._transfer_key(key, bound, node)
+                if k2 is not None:
+                    assume.setdefault(k2, v)
+            w = _World(g, self.ctx.cfg(g), assume, ctx=self.ctx, params=params, level=self.level + 1)
+            w.bound = bound
+            live = w.reach()
+            rets = _return_sites(g)
+            retn = [n for r in rets for n in w.cfg.nodes_for(r)]
+            for r in rets:
+                if any(n in live for n in w.cfg.nodes_for(r)):
+                    out.append((w, r))
+            if w.cfg.exit in w.reach(cut_nodes=retn):
+                out.append((w, None))
+        self._hret[k] = out if out else None
+        return self._hret[k]
+
+    # -- which expressions a value can be (for "this argument is the configured delay / the route of this cell")
+    def _truth_given(self, atom: ast.AST, var: str, av):
+        """Truth of a CFG atom when the local `var` holds the abstract value av (None: the atom says nothing about it)."""
+        atom = strip_cast(atom)
+
+        def held(x: ast.AST):
+            """(abstract values, truth values) of x when it is `var`, `var.field` or `var[k]`; None otherwise."""
+            x = strip_cast(x)
+            if isinstance(x, ast.Name):
+                return ({av}, {self._truth_of(av)}) if x.id == var else None
+            if isinstance(x, (ast.Attribute, ast.Subscript)) and isinstance(strip_cast(x.value), ast.Name) and strip_cast(x.value).id == var \
+                    and av is not None and not self.defs(chain(x) or "?"):
+                sel = x.attr if isinstance(x, ast.Attribute) else const_value(strip_cast(x.slice))
+                if av[0] == "r" and isinstance(sel, str):
+                    f = next((f for f in av[2] if f[0] == sel), None)
+                    return (set(f[1]), set(f[2])) if f else None
+                if av[0] == "r" and isinstance(sel, int) and not isinstance(sel, bool) and _is_namedtuple(av[1]) and 0 <= sel < len(av[2]):
+                    return set(av[2][sel][1]), set(av[2][sel][2])
+                if av[0] == "u" and isinstance(sel, int) and not isinstance(sel, bool) and 0 <= sel < len(av[1]):
+                    return set(av[1][sel][0]), set(av[1][sel][1])
+            return None
+
+        h = held(atom)
+        if h is not None:
+            return next(iter(h[1])) if len(h[1]) == 1 else None
+        if isinstance(atom, ast.Compare) and len(atom.ops) == 1 and isinstance(atom.ops[0], (ast.Eq, ast.NotEq)) and _len_arg(atom.left) is not None \
+                and isinstance(strip_cast(atom.comparators[0]), ast.Constant):
+            h = held(_len_arg(atom.left))
+            if h is not None:
+                ts = {None if _len_of(a) is None else ((_len_of(a) == strip_cast(atom.comparators[0]).value) != isinstance(atom.ops[0], ast.NotEq)) for a in h[0]}
+                return next(iter(ts)) if len(ts) == 1 else None
+        if isinstance(atom, ast.Call) and isinstance(atom.func, ast.Name) and atom.func.id == "isinstance" and len(atom.args) == 2 and held(atom.args[0]) is not None:
+            want = strip_cast(atom.args[1])
+            classes = [self._cls_of(x) for x in (want.elts if isinstance(want, ast.Tuple) else [want])]
+            if all(c is not None for c in classes):
+                ts = set()
+                for a in held(atom.args[0])[0]:
+                    ts.add(any(k in a[1].mro() for k in classes) if a is not None and a[0] in ("r", "e") else False if a == ("c", None) else None)
+                return next(iter(ts)) if len(ts) == 1 else None
+        if isinstance(atom, ast.Compare) and len(atom.ops) == 1 and isinstance(atom.ops[0], (ast.Is, ast.IsNot, ast.Eq, ast.NotEq)):
+            l, r = strip_cast(atom.left), strip_cast(atom.comparators[0])
+            cl, cr = self._const_like(l), self._const_like(r)
+            v, cst = (l, cr) if cr is not None else (r, cl) if cl is not None else (None, None)
+            h = held(v) if v is not None else None
+            if h is not None:
+                ts = {self._cmp_abs(a, cst, isinstance(atom.ops[0], (ast.Is, ast.IsNot))) for a in h[0]}
+                t = next(iter(ts)) if len(ts) == 1 else None
+                return None if t is None else (not t if isinstance(atom.ops[0], (ast.IsNot, ast.NotEq)) else t)
+        return None
+
+    def _feasible(self, var: str, av, d, node) -> bool:
+        """Can control get from the definition d of `var` (value av) to `node` without re-defining var or taking a branch av contradicts?"""
+        def cut(u, v, lab) -> bool:
+            if u.kind != "cond" or not isinstance(lab, bool):
+                return False
+            t = self._truth_given(u.ast, var, av)
+            return t is not None and t != lab
+        starts = [v for v, lab in d.succ if lab != "exc"]
+        return node in starts or node in self.cfg.reach(starts, cut_nodes=self._def_nodes(var) - {node}, cut_edge=cut)
+
+    def exprs_at(self, e: ast.AST, node, depth: int = 0):
+        """
+        [(expression, CFG node where it is evaluated)]: what the value of e at `node` can have been computed by - locals are
+        followed through ALL their reaching definitions (a definition whose constant / record value contradicts a branch
+        taken on the way, such as the `None` of a 'nothing to do' verdict behind `if x is not None`, does not count),
+        conditional expressions through both arms, fields of records and tuples to the constructor argument, NEW helpers
+        to their return values (in the caller's words).  None: not known.
+        """
+        e = strip_cast(e)
+        if depth > 6:
+            return None
+        if isinstance(e, ast.IfExp):
+            a, b = self.exprs_at(e.body, node, depth + 1), self.exprs_at(e.orelse, node, depth + 1)
+            return None if a is None or b is None else a + b
+        if isinstance(e, ast.Name) and not is_param(self.fi, e.id) and self.defs(e.id):
+            _, ds = self._rdefs(e.id, node, None)
+            out = []
+            for d, val in ds:
+                if val is None:
+                    return None
+                alts = self.exprs_at(val, d, depth + 1)
+                if alts is None:
+                    return None
+                for a, an in alts:
+                    avs = self._absvals(a, an, 0)
+                    if len(avs) == 1 and None not in avs and not self._feasible(e.id, next(iter(avs)), d, node):
+                        continue
+                    out.append((a, an))
+            return out
+        if isinstance(e, (ast.Attribute, ast.Subscript)) and self._tracked(e) and not self.defs(chain(e) or "?"):
+            bases = self.exprs_at(e.value, node, depth + 1)
+            if bases is None:
+                return None
+            out = []
+            for b, bn in bases:
+                b = strip_cast(b)
+                x = None
+                if isinstance(b, ast.Call) and self._cls_of(b.func) is not None and _record_fields(self.ctx.repo, self._cls_of(b.func)) is not None \
+                        and not any(isinstance(a, ast.Starred) for a in b.args) and not any(k.arg is None for k in b.keywords):
+                    names = _record_fields(self.ctx.repo, self._cls_of(b.func))
+                    sel = e.attr if isinstance(e, ast.Attribute) else None
+                    if sel is None and _is_namedtuple(self._cls_of(b.func)) and isinstance(const_value(strip_cast(e.slice)), int) and 0 <= const_value(strip_cast(e.slice)) < len(names):
+                        sel = names[const_value(strip_cast(e.slice))]
+                    if sel in names:
+                        x = arg(b, names.index(sel), sel)
+                elif isinstance(b, ast.Tuple) and isinstance(e, ast.Subscript) and isinstance(const_value(strip_cast(e.slice)), int) \
+                        and not any(isinstance(a, ast.Starred) for a in b.elts) and 0 <= const_value(strip_cast(e.slice)) < len(b.elts):
+                    x = b.elts[const_value(strip_cast(e.slice))]
+                if x is None:
+                    return [(e, node)]
+                sub = self.exprs_at(x, bn, depth + 1)
+                if sub is None:
+                    return None
+                out.extend(sub)
+            return out
+        if isinstance(e, (ast.Call, ast.Await)) and self.ctx is not None:
+            awaited = isinstance(e, ast.Await)
+            call = strip_cast(e.value) if awaited else e
+            hr = self._helper_returns(call, node, awaited) if isinstance(call, ast.Call) else None
+            if hr is not None:
+                out = []
+                for w, r in hr:
+                    if r is None or r.value is None:
+                        out.append((ast.Constant(value=None), node))
+                        continue
+                    for rn in w.cfg.nodes_for(r):
+                        sub = w.exprs_at(r.value, rn, depth + 1)
+                        if sub is None:
+                            return [(e, node)]
+                        for x, _ in sub:
+                            y = w._in_caller_words(x)
+                            if y is None:
+                                return [(e, node)]
+                            out.append((y, node))
+                return out
+        return [(e, node)]
+
+    def _in_caller_words(self, x: ast.AST):
+        """An expression of this helper rewritten over the caller's argument expressions (None when it uses a helper local)."""
+        y = _Expand(self.fi).visit(_clone(x))
+        mine = {n.id for n in ast.walk(y) if isinstance(n, ast.Name) and isinstance(n.ctx, ast.Load)}
+        for nme in mine:
+            if nme in self.bound:
+                if self.defs(nme):
+                    return None                                     # parameter re-assigned in the helper
+            elif is_param(self.fi, nme) and nme not in ("self", "cls") or local_defs(self.fi, nme):
+                return None
+        y = _Subst({k: v for k, v in self.bound.items()}).visit(y)
+        ast.fix_missing_locations(y)
+        return y
+
+    def _transfer_key(self, key, bound: dict, node):
+        """The assumed condition in the words of a helper called at `node` with `bound` = {parameter: argument expression}."""
+        op, l, r, integer = key.raw
+        byarg = {}
+        for pname, a in bound.items():
+            a = strip_cast(a)
+            if not isinstance(a, ast.Constant):
+                for t in _texts(self.fi, a):
+                    byarg.setdefault(t, pname)
+        ok = [True]
+
+        class Sub(ast.NodeTransformer):
+            def visit(self_, n):  # noqa: N805
+                if isinstance(n, ast.expr) and norm(n) in byarg:
+                    return ast.Name(id="\0" + byarg[norm(n)], ctx=ast.Load())
+                return self_.generic_visit(n)
+
+        def ren(text: str):
+            if not text:
+                return text
+            e = _parse(text)
+            if e is None:
+                return None
+            if node is not None and not self._stable(e, node):
+                return None                                         # the assumed value is not the one the helper gets
+            e = Sub().visit(e)
+            for n in ast.walk(e):
+                if isinstance(n, ast.Name):
+                    if n.id.startswith("\0"):
+                        n.id = n.id[1:]
+                    elif n.id not in ("self", "time", "len") and not n.id.isupper():
+                        return None
+            return norm(e)
+        l2, r2 = ren(l), ren(r)
+        return None if l2 is None or r2 is None else _K(op, l2, r2, integer)
+
+    @staticmethod
+    def _cmp_abs(av, cl, ident: bool = False):
+        """Is the abstract value equal to / identical with the constant or Enum member cl?  (None = unknown)"""
         if av is None:
             return None
+        if cl[0] == "e":
+            if av[0] == "e":
+                if av[1] is cl[1] or av[1] == cl[1]:
+                    return av[2] == cl[2] if _enum_aliases(av[1], av[2], cl[2]) is False else None
+                return False if ident or _enum_kind(av[1]) == "plain" and _enum_kind(cl[1]) == "plain" else None
+            if av[0] == "c":
+                return False if ident or av[1] is None or _enum_kind(cl[1]) == "plain" else None
+            return False if av[0] != "n" or ident else None
+        cv = cl[1]
         if av[0] == "c":
             v = av[1]
             if v is None or cv is None or isinstance(v, bool) or isinstance(cv, bool):
                 return v is cv
             return type(v) is type(cv) and v == cv
+        if av[0] == "e":
+            return False if ident or cv is None or _enum_kind(av[1]) == "plain" else None
         return False if cv is None or isinstance(cv, (bool, int, float, str, bytes)) else None
+
+
+def _len_arg(e: ast.AST):
+    """x of `len(x)`, else None."""
+    e = strip_cast(e)
+    return e.args[0] if isinstance(e, ast.Call) and isinstance(e.func, ast.Name) and e.func.id == "len" and len(e.args) == 1 and not e.keywords else None
+
+
+def _len_of(av):
+    """Number of elements of an abstract value used as a sequence; -1 for something that is no sequence at all; None = unknown."""
+    if av is None:
+        return None
+    if av[0] == "u":
+        return len(av[1])
+    if av[0] == "r":
+        return len(av[2]) if _is_namedtuple(av[1]) else -1
+    if av[0] == "f":
+        return 0
+    if av[0] == "e":
+        return -1 if _enum_kind(av[1]) == "plain" else None
+    if av[0] == "c" and (av[1] is None or isinstance(av[1], (bool, int, float))):
+        return -1
+    return None
+
+
+def _av_key(av) -> str:
+    """A cheap, deterministic sort key for abstract values (never the repr of a ClassInfo)."""
+    if av is None:
+        return "?"
+    if av[0] == "c":
+        return f"c:{type(av[1]).__name__}:{av[1]!r}"
+    if av[0] == "e":
+        return f"e:{av[1].name}.{av[2]}"
+    if av[0] == "r":
+        return f"r:{av[1].name}:" + ",".join(f"{f[0]}=" + "|".join(sorted(_av_key(x) for x in f[1])) for f in av[2])
+    if av[0] == "u":
+        return "u:" + ",".join("|".join(sorted(_av_key(x) for x in f[0])) for f in av[1])
+    return av[0]
+
+
+_ENUM_BASES = {"Enum": "plain", "Flag": "plain", "IntEnum": "int", "IntFlag": "int", "StrEnum": "str"}
+
+
+def _enum_kind(cls) -> str | None:
+    """'plain' (members equal nothing but themselves) | 'int' | 'str' for an Enum class of the repo, None otherwise."""
+    kind = None
+    for c in cls.mro():
+        if any(m in c.methods for m in ("__eq__", "__bool__", "__len__", "__hash__")):
+            return None if kind is None else "int"
+        for b in c.base_names:
+            b = b.rsplit(".", 1)[-1]
+            if b in _ENUM_BASES:
+                k = _ENUM_BASES[b]
+                kind = k if kind in (None, "plain") else kind
+            elif b in ("int", "str") and kind is not None:
+                kind = b
+    return kind
+
+
+def _enum_aliases(cls, a: str, b: str):
+    """False when members a and b of cls are certainly distinct objects (different constant values), None when they may be aliases."""
+    if a == b:
+        return False
+    va, vb = cls.attrs.get(a), cls.attrs.get(b)
+    for v in (va, vb):
+        if isinstance(v, ast.Call) and chain(v.func) in ("auto", "enum.auto") and not v.args:
+            continue
+        if not isinstance(v, ast.Constant):
+            return None
+    if isinstance(va, ast.Constant) and isinstance(vb, ast.Constant):
+        return False if (type(va.value), va.value) != (type(vb.value), vb.value) else None
+    autos = [v for v in (va, vb) if not isinstance(v, ast.Constant)]
+    if len(autos) == 2:
+        return False
+    # auto() next to explicit values: distinct unless the explicit value collides with a generated one - undecided
+    return None
+
+
+def _is_namedtuple(cls) -> bool:
+    return any(b.rsplit(".", 1)[-1] == "NamedTuple" for c in cls.mro() for b in c.base_names)
+
+
+def _record_fields(repo, cls) -> list[str] | None:
+    """Constructor fields (in order) of a NamedTuple / dataclass without a hand-written __init__/__new__; None for any other class."""
+    if any(m in c.methods for c in cls.mro() for m in ("__init__", "__new__", "__post_init__", "__getattr__", "__getattribute__")):
+        return None
+    if _is_namedtuple(cls):
+        if len(cls.mro()) != 1:
+            return None
+        return [a for a in cls.annotations if "ClassVar" not in norm(cls.annotations[a])]
+    decos = [d for d in cls.node.decorator_list]
+    dc = [d for d in decos if (chain(d.func if isinstance(d, ast.Call) else d) or "").rsplit(".", 1)[-1] == "dataclass"]
+    if not dc or len(decos) != 1 or len(cls.mro()) != 1:
+        return None
+    d = dc[0]
+    frozen = isinstance(d, ast.Call) and any(k.arg == "frozen" and isinstance(k.value, ast.Constant) and k.value.value is True for k in d.keywords)
+    if isinstance(d, ast.Call) and any(k.arg in ("init", "kw_only", "slots") or k.arg is None for k in d.keywords):
+        return None
+    names = [a for a in cls.annotations if "ClassVar" not in norm(cls.annotations[a]) and "InitVar" not in norm(cls.annotations[a])]
+    if not frozen and any(True for n in names for _ in stores_anywhere(repo, n)):
+        return None                                                 # a mutable record whose field name is stored to somewhere
+    return names
 
 
 # ------------------------------------------------------------------------------------ new helpers / closed sets
@@ -427,16 +1182,27 @@ def _only_reached_from(repo, fi: FuncInfo, allowed, _seen=None) -> bool:
     if _within(fi, allowed):
         return True
     nested = "." in fi.qualname and (fi.cls is None or fi.qualname.count(".") > 1)
-    if not _is_new(fi) or not (_private(fi) or nested):
+    # a method of a NEW private class (a small callable object that replaces a closure): whoever names the class uses it
+    helper_cls = fi.cls if fi.cls is not None and fi.cls.name.startswith("_") and fi.cls.methods and all(_is_new(x) for x in fi.cls.methods.values()) \
+        and len(fi.cls.mro()) == 1 else None
+    if not _is_new(fi) or not (_private(fi) or nested or helper_cls is not None):
         return False
     seen = set() if _seen is None else _seen
     if fi.qualname in seen:
         return True
     seen.add(fi.qualname)
     users = []
-    for m, g, c in repo.callers_of_name(fi.name):
+    if helper_cls is not None:
+        for m in repo.modules.values():
+            for n in ast.walk(m.tree):
+                if isinstance(n, ast.Name) and n.id == helper_cls.name and isinstance(n.ctx, ast.Load) and repo.resolve_name(m, n.id) is helper_cls:
+                    g = repo.function_of(n)
+                    if g is None or g.cls is not helper_cls:
+                        users.append(g)
+    dunder = fi.name.startswith("__") and fi.name.endswith("__")
+    for m, g, c in repo.callers_of_name(fi.name) if not dunder else ():
         users.append(g)
-    for m, g, a in repo.attribute_uses(fi.name):
+    for m, g, a in repo.attribute_uses(fi.name) if not dunder else ():
         users.append(g)
     if nested:
         for g in fi.module.all_functions:
@@ -637,6 +1403,233 @@ class _FoldDyn(ast.NodeTransformer):
         return n
 
 
+def _std_callee(fi: FuncInfo, f: ast.AST):
+    """(module, name) of a callee imported from the standard library (`from operator import lt`, `operator.lt`, `import operator as op`)."""
+    imps = fi.module.imports
+    if isinstance(f, ast.Name) and f.id in imps and imps[f.id][1] is not None and not local_defs(fi, f.id) and not is_param(fi, f.id):
+        return imps[f.id]
+    if isinstance(f, ast.Attribute) and isinstance(f.value, ast.Name) and f.value.id in imps and imps[f.value.id][1] is None \
+            and not local_defs(fi, f.value.id) and not is_param(fi, f.value.id):
+        return imps[f.value.id][0], f.attr
+    return None
+
+
+_OPERATOR_CMP = {"lt": ast.Lt, "le": ast.LtE, "gt": ast.Gt, "ge": ast.GtE, "eq": ast.Eq, "ne": ast.NotEq, "is_": ast.Is, "is_not": ast.IsNot}
+_OPERATOR_BIN = {"add": ast.Add, "sub": ast.Sub}
+
+
+def _inert_arg(fi: FuncInfo, e: ast.AST) -> bool:
+    """An argument that means the same wherever it is evaluated in the function: a constant, self.<attr chain>, a once-bound local / parameter."""
+    e = strip_cast(e)
+    if isinstance(e, ast.Constant):
+        return True
+    while isinstance(e, ast.Attribute):
+        e = e.value
+    return isinstance(e, ast.Name) and (e.id == "self" or is_param(fi, e.id) and not local_defs(fi, e.id) or len(local_defs(fi, e.id)) == 1)
+
+
+class _FoldStd(ast.NodeTransformer):
+    """
+    operator.lt(a, b) -> a < b (le, gt, ge, eq, ne, is_, is_not, not_, truth, contains, add, sub, getitem);
+    attrgetter('x')(o) -> o.x ; itemgetter(k)(o) -> o[k] ; methodcaller('m', *a)(o) -> o.m(*a)   (also through a local / module
+    constant that holds the getter);  p = partial(f, *a, **k) ... p(*b) -> f(*a, *b, **k) for a once-bound local p with inert a.
+    """
+
+    def __init__(self, repo, fi: FuncInfo) -> None:
+        self.repo, self.fi, self.changed = repo, fi, False
+
+    def _getter(self, f: ast.AST):
+        f = strip_cast(f)
+        if isinstance(f, ast.Name):
+            d = single_def(self.fi, f.id)
+            if d is not None and d[1] is None:
+                f = strip_cast(d[0])
+            elif not local_defs(self.fi, f.id) and not is_param(self.fi, f.id):
+                r = self.repo.resolve_name(self.fi.module, f.id)
+                if isinstance(r, tuple) and r[0] == "const":
+                    f = strip_cast(r[2])
+        if isinstance(f, ast.Call) and not f.keywords or isinstance(f, ast.Call) and (_std_callee(self.fi, f.func) or ("", ""))[1] == "partial":
+            sc = _std_callee(self.fi, f.func)
+            if sc is not None and sc[0] in ("operator", "functools"):
+                return sc[1], f
+        return None
+
+    def _same_at_call(self, call: ast.Call, a: ast.AST) -> bool:
+        """
+        The argument `a` bound by `p = partial(...)` has the same value when `p(...)` is called: it is inert in the function, or the
+        binding and the call lie in the same innermost loop body and nothing in that body re-binds the names a reads.
+        """
+        if _inert_arg(self.fi, a):
+            return True
+        st = local_defs(self.fi, call.func.id)[0][0]
+        region = getattr(st, "_parent", None)
+        while region is not None and not isinstance(region, (ast.For, ast.AsyncFor, ast.While, ast.FunctionDef, ast.AsyncFunctionDef)):
+            region = getattr(region, "_parent", None)
+        if region is None or not (region.lineno <= getattr(call, "lineno", -1) <= getattr(region, "end_lineno", -1)):
+            return False
+        inner = {id(x) for b in region.body for x in ast.walk(b)}
+        for x in ast.walk(a):
+            if isinstance(x, (ast.Call, ast.Await, ast.NamedExpr, ast.Lambda, ast.Subscript)):
+                return False
+            if isinstance(x, ast.Name) and x.id != "self":
+                for dst, _v, _i in local_defs(self.fi, x.id):
+                    if id(dst) in inner:
+                        return False
+        for x in ast.walk(region):
+            if isinstance(x, (ast.For, ast.AsyncFor, ast.While)) and x is not region and id(x) in inner and \
+                    x.lineno <= st.lineno <= x.end_lineno:
+                return False
+        return True
+
+    def visit_Call(self, n: ast.Call):
+        self.generic_visit(n)
+        sc = _std_callee(self.fi, n.func)
+        if sc is not None and sc[0] == "operator" and not n.keywords and not any(isinstance(a, ast.Starred) for a in n.args):
+            nm, a = sc[1], n.args
+            out = None
+            if nm in _OPERATOR_CMP and len(a) == 2:
+                out = ast.Compare(left=a[0], ops=[_OPERATOR_CMP[nm]()], comparators=[a[1]])
+            elif nm == "contains" and len(a) == 2:
+                out = ast.Compare(left=a[1], ops=[ast.In()], comparators=[a[0]])
+            elif nm in _OPERATOR_BIN and len(a) == 2:
+                out = ast.BinOp(left=a[0], op=_OPERATOR_BIN[nm](), right=a[1])
+            elif nm == "not_" and len(a) == 1:
+                out = ast.UnaryOp(op=ast.Not(), operand=a[0])
+            elif nm == "getitem" and len(a) == 2:
+                out = ast.Subscript(value=a[0], slice=a[1], ctx=ast.Load())
+            if out is not None:
+                self.changed = True
+                return ast.copy_location(out, n)
+        g = self._getter(n.func) if isinstance(n.func, (ast.Name, ast.Call)) else None
+        if g is not None and not any(isinstance(a, ast.Starred) for a in n.args):
+            nm, mk = g
+            out = None
+            if nm == "attrgetter" and len(n.args) == 1 and not n.keywords and len(mk.args) == 1 and isinstance(mk.args[0], ast.Constant) \
+                    and isinstance(mk.args[0].value, str) and all(p_.isidentifier() for p_ in mk.args[0].value.split(".")):
+                out = n.args[0]
+                for part in mk.args[0].value.split("."):
+                    out = ast.Attribute(value=out, attr=part, ctx=ast.Load())
+            elif nm == "itemgetter" and len(n.args) == 1 and not n.keywords and len(mk.args) == 1 and isinstance(mk.args[0], ast.Constant):
+                out = ast.Subscript(value=n.args[0], slice=clone(mk.args[0]), ctx=ast.Load())
+            elif nm == "methodcaller" and len(n.args) == 1 and not n.keywords and mk.args and isinstance(mk.args[0], ast.Constant) and isinstance(mk.args[0].value, str) \
+                    and mk.args[0].value.isidentifier() and all(_inert_arg(self.fi, a) for a in mk.args[1:]) and all(k.arg and _inert_arg(self.fi, k.value) for k in mk.keywords):
+                out = ast.Call(func=ast.Attribute(value=n.args[0], attr=mk.args[0].value, ctx=ast.Load()), args=[clone(a) for a in mk.args[1:]],
+                               keywords=[ast.keyword(arg=k.arg, value=clone(k.value)) for k in mk.keywords])
+            elif nm == "partial" and isinstance(n.func, ast.Name) and mk.args and not any(isinstance(a, ast.Starred) for a in mk.args) \
+                    and all(k.arg for k in [*mk.keywords, *n.keywords]) and all(self._same_at_call(n, a) for a in [*mk.args, *[k.value for k in mk.keywords]]) \
+                    and not {k.arg for k in mk.keywords} & {k.arg for k in n.keywords}:
+                out = ast.Call(func=clone(mk.args[0]), args=[*[clone(a) for a in mk.args[1:]], *n.args],
+                               keywords=[*[ast.keyword(arg=k.arg, value=clone(k.value)) for k in mk.keywords], *n.keywords])
+            if out is not None:
+                self.changed = True
+                return ast.copy_location(out, n)
+        return n
+
+
+def _union_members(fi: FuncInfo, e: ast.AST):
+    """[A, B, ...] when e is the union of the containers A, B, ... as far as `in` is concerned: chain(A, B), (*A, *B), {**A, **B}, A.keys() | B.keys(), ChainMap(A, B)."""
+    e = strip_cast(e)
+
+    def keys_of(x):
+        x = strip_cast(x)
+        if isinstance(x, ast.Call) and isinstance(x.func, ast.Attribute) and x.func.attr == "keys" and not x.args and not x.keywords:
+            return x.func.value
+        if isinstance(x, ast.Call) and isinstance(x.func, ast.Name) and x.func.id in ("set", "frozenset", "list", "tuple") and len(x.args) == 1 and not x.keywords:
+            return x.args[0]
+        return x if isinstance(x, (ast.Name, ast.Attribute)) else None
+    if isinstance(e, ast.Call) and not e.keywords and len(e.args) >= 2 and not any(isinstance(a, ast.Starred) for a in e.args):
+        sc = _std_callee(fi, e.func)
+        if sc in (("itertools", "chain"), ("collections", "ChainMap")):
+            return [keys_of(a) for a in e.args] if all(keys_of(a) is not None for a in e.args) else None
+    if isinstance(e, (ast.Tuple, ast.List, ast.Set)) and len(e.elts) >= 2 and all(isinstance(x, ast.Starred) for x in e.elts):
+        return [keys_of(x.value) for x in e.elts] if all(keys_of(x.value) is not None for x in e.elts) else None
+    if isinstance(e, ast.Dict) and len(e.keys) >= 2 and all(k is None for k in e.keys):
+        return [keys_of(v) for v in e.values] if all(keys_of(v) is not None for v in e.values) else None
+    if isinstance(e, ast.BinOp) and isinstance(e.op, ast.BitOr):
+        parts, todo = [], [e]
+        while todo:
+            x = strip_cast(todo.pop(0))
+            if isinstance(x, ast.BinOp) and isinstance(x.op, ast.BitOr):
+                todo[:0] = [x.left, x.right]
+            else:
+                parts.append(x)
+        if all(isinstance(strip_cast(x), ast.Call) and keys_of(x) is not None and keys_of(x) is not x for x in parts):
+            return [keys_of(x) for x in parts]
+    return None
+
+
+def _fold_membership(fi: FuncInfo, e: ast.AST):
+    """`k in chain(A, B, C)` (and the other union spellings) -> `k in A or k in B or k in C`; `not in` -> the negated conjunction."""
+    if not (isinstance(e, ast.Compare) and len(e.ops) == 1 and isinstance(e.ops[0], (ast.In, ast.NotIn))):
+        return None
+    k = strip_cast(e.left)
+    if not _simple_elt(k) or isinstance(k, (ast.Tuple, ast.List, ast.Dict)):
+        return None
+    ms = _union_members(fi, e.comparators[0])
+    if not ms:
+        return None
+    out = ast.BoolOp(op=ast.Or(), values=[ast.Compare(left=clone(k), ops=[ast.In()], comparators=[clone(m)]) for m in ms])
+    if isinstance(e.ops[0], ast.NotIn):
+        out = ast.UnaryOp(op=ast.Not(), operand=out)
+    return ast.copy_location(out, e)
+
+
+def _fold_quantifier(e: ast.AST):
+    """`any(P(x) for x in (a, b, c))` in a boolean position -> `P(a) or P(b) or P(c)` (`all` -> and); None when not of that shape."""
+    if not (isinstance(e, ast.Call) and isinstance(e.func, ast.Name) and e.func.id in ("any", "all") and len(e.args) == 1 and not e.keywords):
+        return None
+    g = e.args[0]
+    if not isinstance(g, (ast.GeneratorExp, ast.ListComp)) or len(g.generators) != 1 or g.generators[0].is_async:
+        return None
+    gen = g.generators[0]
+    it = strip_cast(gen.iter)
+    if not isinstance(it, (ast.Tuple, ast.List)) or not it.elts or len(it.elts) > 8 or not all(_simple_elt(x) for x in it.elts) \
+            or any(isinstance(x, ast.Starred) for x in it.elts):
+        return None
+    if any(isinstance(n, (ast.NamedExpr, ast.Await, ast.Yield, ast.YieldFrom, ast.Lambda, ast.GeneratorExp, ast.ListComp, ast.SetComp, ast.DictComp))
+           for x in [g.elt, *gen.ifs] for n in ast.walk(x)):
+        return None
+    is_any = e.func.id == "any"
+    terms = []
+    for x in it.elts:
+        m: dict = {}
+        if not _bind_target(gen.target, x, m):
+            return None
+        parts = [_Subst(m).visit(clone(c)) for c in gen.ifs]
+        body = _Subst(m).visit(clone(g.elt))
+        if is_any:
+            terms.append(ast.BoolOp(op=ast.And(), values=[*parts, body]) if parts else body)
+        else:
+            cond = ast.BoolOp(op=ast.And(), values=parts) if len(parts) > 1 else parts[0] if parts else None
+            terms.append(body if cond is None else ast.BoolOp(op=ast.Or(), values=[ast.UnaryOp(op=ast.Not(), operand=cond), body]))
+    out = terms[0] if len(terms) == 1 else ast.BoolOp(op=ast.Or() if is_any else ast.And(), values=terms)
+    return ast.copy_location(out, e)
+
+
+def _fold_bool_positions(root: ast.AST, fi: FuncInfo | None = None) -> bool:
+    """Rewrite quantifiers over literal tuples in the tests of if / while / assert / conditional expressions (truth value is all that is used there)."""
+    changed = [False]
+
+    def pos(e: ast.AST) -> ast.AST:
+        if isinstance(e, ast.BoolOp):
+            e.values = [pos(v) for v in e.values]
+            return e
+        if isinstance(e, ast.UnaryOp) and isinstance(e.op, ast.Not):
+            e.operand = pos(e.operand)
+            return e
+        r = _fold_quantifier(e)
+        if r is None and fi is not None:
+            r = _fold_membership(fi, e)
+        if r is not None:
+            changed[0] = True
+            return pos(r)
+        return e
+    for n in ast.walk(root):
+        if isinstance(n, (ast.If, ast.While, ast.IfExp, ast.Assert)):
+            n.test = pos(n.test)
+    return changed[0]
+
+
 def _own_loop_jumps(body) -> bool:
     """break / continue that belong to the loop whose body this is"""
     stack = list(body)
@@ -734,8 +1727,281 @@ class _Unroller:
         return False
 
 
+class _MatchDesugar:
+    """
+    `match` statements the load-time normaliser leaves alone (sequence patterns, guards, class patterns with positional
+    sub-patterns) as if / elif chains: the subject is evaluated once into a fresh local, every pattern becomes the test Python
+    performs (`len(s) == n` stands for "a sequence of n elements" - strings, which a sequence pattern never matches, are kept
+    undecided by the evaluator), captures become assignments at the top of the arm, a guard is tested with the captures
+    substituted.  Same tests in the same order, same bodies.
+    """
+
+    def __init__(self, repo, fi: FuncInfo) -> None:
+        self.repo, self.fi, self.n, self.changed = repo, fi, 0, False
+
+    def block(self, stmts: list) -> list:
+        out = []
+        for st in stmts:
+            for f in ("body", "orelse", "finalbody"):
+                v = getattr(st, f, None)
+                if isinstance(v, list) and v and isinstance(v[0], ast.stmt):
+                    setattr(st, f, self.block(v))
+            for h in getattr(st, "handlers", []) or []:
+                h.body = self.block(h.body)
+            if isinstance(st, ast.Match):
+                for c in st.cases:
+                    c.body = self.block(c.body)
+                r = self.match(st)
+                if r is not None:
+                    out.extend(r)
+                    self.changed = True
+                    continue
+            out.append(st)
+        return out
+
+    def match(self, st: ast.Match):
+        pre = []
+        if isinstance(st.subject, ast.Name):
+            sname = st.subject.id
+        else:
+            self.n += 1
+            sname = f"_c09_subject{self.n}"
+            pre = [ast.copy_location(ast.Assign(targets=[ast.Name(id=sname, ctx=ast.Store())], value=st.subject, type_comment=None), st)]
+
+        def subj() -> ast.AST:
+            return ast.Name(id=sname, ctx=ast.Load())
+        arms = []
+        for case in st.cases:
+            r = self.pat(case.pattern, subj)
+            if r is None:
+                return None
+            conds, binds = r
+            if case.guard is not None:
+                conds = [*conds, _Subst({n: e() for n, e in binds}).visit(clone(case.guard))]
+            body = [ast.copy_location(ast.Assign(targets=[ast.Name(id=n, ctx=ast.Store())], value=e(), type_comment=None), case.pattern) for n, e in binds] + case.body
+            arms.append((conds, body))
+        cur: list = []
+        for conds, body in reversed(arms):
+            if not conds:
+                cur = body
+            else:
+                test = conds[0] if len(conds) == 1 else ast.BoolOp(op=ast.And(), values=conds)
+                cur = [ast.copy_location(ast.If(test=test, body=body, orelse=cur), body[0] if body else st)]
+        return pre + (cur or [ast.copy_location(ast.Pass(), st)])
+
+    def pat(self, p, s):
+        """([test expressions, all must hold], [(captured name, thunk of the captured expression)]) or None = not translated."""
+        if isinstance(p, ast.MatchValue):
+            return [ast.Compare(left=s(), ops=[ast.Eq()], comparators=[clone(p.value)])], []
+        if isinstance(p, ast.MatchSingleton):
+            return [ast.Compare(left=s(), ops=[ast.Is()], comparators=[ast.Constant(value=p.value)])], []
+        if isinstance(p, ast.MatchAs):
+            if p.pattern is None:
+                return [], ([(p.name, s)] if p.name else [])
+            r = self.pat(p.pattern, s)
+            return None if r is None else (r[0], r[1] + ([(p.name, s)] if p.name else []))
+        if isinstance(p, ast.MatchOr):
+            rs = [self.pat(x, s) for x in p.patterns]
+            if any(r is None or r[1] for r in rs):
+                return None
+            if any(not r[0] for r in rs):
+                return [], []
+            return [ast.BoolOp(op=ast.Or(), values=[r[0][0] if len(r[0]) == 1 else ast.BoolOp(op=ast.And(), values=r[0]) for r in rs])], []
+        if isinstance(p, ast.MatchSequence):
+            if any(isinstance(x, ast.MatchStar) for x in p.patterns):
+                return None
+            conds = [ast.Compare(left=ast.Call(func=ast.Name(id="len", ctx=ast.Load()), args=[s()], keywords=[]), ops=[ast.Eq()],
+                                 comparators=[ast.Constant(value=len(p.patterns))])]
+            binds = []
+            for i, x in enumerate(p.patterns):
+                r = self.pat(x, lambda i=i: ast.Subscript(value=s(), slice=ast.Constant(value=i), ctx=ast.Load()))
+                if r is None:
+                    return None
+                conds += r[0]
+                binds += r[1]
+            return conds, binds
+        if isinstance(p, ast.MatchClass):
+            names = list(p.kwd_attrs)
+            if p.patterns:
+                cls = None
+                try:
+                    cls = self.repo.resolve_class_expr(self.fi.module, p.cls)
+                except Exception:  # noqa: BLE001
+                    cls = None
+                fields = _record_fields(self.repo, cls) if cls is not None else None
+                if fields is None or len(p.patterns) > len(fields) or "__match_args__" in cls.attrs:
+                    return None
+                names = fields[:len(p.patterns)] + names
+            conds = [ast.Call(func=ast.Name(id="isinstance", ctx=ast.Load()), args=[s(), clone(p.cls)], keywords=[])]
+            binds = []
+            for nme, x in zip(names, [*p.patterns, *p.kwd_patterns]):
+                r = self.pat(x, lambda nme=nme: ast.Attribute(value=s(), attr=nme, ctx=ast.Load()))
+                if r is None:
+                    return None
+                conds += r[0]
+                binds += r[1]
+            return conds, binds
+        return None
+
+
+class _LoopPipelines:
+    """
+    Loops fed by a one-generator comprehension / generator expression / filter():
+        for T in (E for G in IT if C): BODY      ->  for G in IT:  if C:  T = E; BODY
+        name = [E for G in IT if C]              ->  name = [];  for G in IT:  if C:  name.append(E)
+    (filter(f, IT) is the generator `x for x in IT if f(x)`, filter(None, IT) tests x itself, filterfalse negates).  The
+    elements are produced and tested in the same order; a comprehension variable becomes a local of the function, so the
+    rewrite is only made when that name occurs nowhere else in the function.
+    """
+
+    def __init__(self, fi: FuncInfo, root) -> None:
+        self.fi, self.root, self.n, self.changed = fi, root, 0, False
+        self.count: dict = {}
+        for x in ast.walk(root):
+            if isinstance(x, ast.Name):
+                self.count[x.id] = self.count.get(x.id, 0) + 1
+            elif isinstance(x, ast.arg):
+                self.count[x.arg] = self.count.get(x.arg, 0) + 1
+
+    def block(self, stmts: list) -> list:
+        out = []
+        for st in stmts:
+            for f in ("body", "orelse", "finalbody"):
+                v = getattr(st, f, None)
+                if isinstance(v, list) and v and isinstance(v[0], ast.stmt):
+                    setattr(st, f, self.block(v))
+            for h in getattr(st, "handlers", []) or []:
+                h.body = self.block(h.body)
+            r = None
+            if isinstance(st, ast.For):
+                r = self.loop(st)
+            elif isinstance(st, ast.Assign) and len(st.targets) == 1 and isinstance(st.targets[0], ast.Name):
+                r = self.collect(st)
+            if r is not None:
+                out.extend(r)
+                self.changed = True
+            else:
+                out.append(st)
+        return out
+
+    def gen(self, e: ast.AST):
+        """(element, target, iterable, [conditions]) of a one-generator comprehension / filter call, else None."""
+        e = strip_cast(e)
+        if isinstance(e, (ast.GeneratorExp, ast.ListComp)):
+            if len(e.generators) != 1 or e.generators[0].is_async:
+                return None
+            g = e.generators[0]
+            inner = [x for part in [e.elt, *g.ifs] for x in ast.walk(part)]
+            if any(isinstance(x, (ast.NamedExpr, ast.Await, ast.Yield, ast.YieldFrom, ast.Lambda, ast.GeneratorExp, ast.ListComp, ast.SetComp, ast.DictComp)) for x in inner):
+                return None
+            names = {x.id for x in ast.walk(g.target) if isinstance(x, ast.Name)}
+            here = {}
+            for x in ast.walk(e):
+                if isinstance(x, ast.Name) and x.id in names:
+                    here[x.id] = here.get(x.id, 0) + 1
+            if not names:
+                return None
+            if any(self.count.get(nm, 0) != here.get(nm, 0) for nm in names):
+                # the variable name is used elsewhere in the function: the comprehension's own variable gets a fresh name
+                self.n += 1
+                ren = {nm: f"_c09_{nm}{self.n}" for nm in names}
+
+                class Ren(ast.NodeTransformer):
+                    def visit_Name(self_, x):  # noqa: N805
+                        return ast.copy_location(ast.Name(id=ren[x.id], ctx=x.ctx), x) if x.id in ren else x
+                return Ren().visit(clone(e.elt)), Ren().visit(clone(g.target)), g.iter, [Ren().visit(clone(c)) for c in g.ifs]
+            return e.elt, g.target, g.iter, list(g.ifs)
+        if isinstance(e, ast.Call) and not e.keywords and len(e.args) == 2 and (chain(e.func) in ("filter", "filterfalse", "itertools.filterfalse")):
+            neg = chain(e.func) != "filter"
+            f, it = strip_cast(e.args[0]), e.args[1]
+            self.n += 1
+            var = f"_c09_item{self.n}"
+            if isinstance(f, ast.Constant) and f.value is None:
+                test = ast.Name(id=var, ctx=ast.Load())
+            elif isinstance(f, ast.Lambda):
+                a = f.args
+                if len(a.args) != 1 or a.posonlyargs or a.kwonlyargs or a.vararg or a.kwarg or a.defaults or \
+                        any(isinstance(x, (ast.NamedExpr, ast.Await, ast.Yield, ast.YieldFrom, ast.Lambda, ast.GeneratorExp, ast.ListComp, ast.SetComp, ast.DictComp)) for x in ast.walk(f.body)):
+                    return None
+                test = _Subst({a.args[0].arg: ast.Name(id=var, ctx=ast.Load())}).visit(clone(f.body))
+            elif isinstance(f, (ast.Name, ast.Attribute)):
+                test = ast.Call(func=clone(f), args=[ast.Name(id=var, ctx=ast.Load())], keywords=[])
+            else:
+                return None
+            if neg:
+                test = ast.UnaryOp(op=ast.Not(), operand=test)
+            return ast.Name(id=var, ctx=ast.Load()), ast.Name(id=var, ctx=ast.Store()), it, [test]
+        return None
+
+    @staticmethod
+    def guarded(ifs: list, body: list, at) -> list:
+        if not ifs:
+            return body
+        test = ifs[0] if len(ifs) == 1 else ast.BoolOp(op=ast.And(), values=ifs)
+        return [ast.copy_location(ast.If(test=test, body=body, orelse=[]), at)]
+
+    def loop(self, st: ast.For):
+        g = self.gen(st.iter)
+        if g is None:
+            return None
+        elt, target, it, ifs = g
+        same = isinstance(st.target, ast.Name) and isinstance(elt, ast.Name) and isinstance(target, ast.Name) and elt.id == target.id == st.target.id
+        bind = [] if same else [ast.copy_location(ast.Assign(targets=[st.target], value=elt, type_comment=None), st)]
+        inner = self.guarded(ifs, bind + st.body, st)
+        new = ast.copy_location(ast.For(target=target, iter=it, body=inner, orelse=st.orelse, type_comment=None), st)
+        r = self.loop(new)                                          # filter(f, (x for ...)) and the like
+        return r if r is not None else [new]
+
+    def collect(self, st: ast.Assign):
+        v = strip_cast(st.value)
+        if isinstance(v, ast.Call) and isinstance(v.func, ast.Name) and v.func.id == "list" and len(v.args) == 1 and not v.keywords and \
+                (isinstance(strip_cast(v.args[0]), ast.GeneratorExp) or isinstance(strip_cast(v.args[0]), ast.Call) and chain(strip_cast(v.args[0]).func) in ("filter", "filterfalse", "itertools.filterfalse")):
+            v = strip_cast(v.args[0])
+        elif not isinstance(v, ast.ListComp):
+            return None
+        name = st.targets[0].id
+        if any(isinstance(x, ast.Name) and x.id == name for x in ast.walk(v)):
+            return None
+        g = self.gen(v)
+        if g is None:
+            return None
+        elt, target, it, ifs = g
+        init = ast.copy_location(ast.Assign(targets=[ast.Name(id=name, ctx=ast.Store())], value=ast.List(elts=[], ctx=ast.Load()), type_comment=None), st)
+        app = ast.copy_location(ast.Expr(value=ast.Call(func=ast.Attribute(value=ast.Name(id=name, ctx=ast.Load()), attr="append", ctx=ast.Load()), args=[elt], keywords=[])), st)
+        loop = ast.copy_location(ast.For(target=target, iter=it, body=self.guarded(ifs, [app], st), orelse=[], type_comment=None), st)
+        r = self.loop(loop)
+        return [init, *(r if r is not None else [loop])]
+
+
+def _derived(fi: FuncInfo, node) -> FuncInfo:
+    ast.fix_missing_locations(node)
+    set_parents(node)
+    v = FuncInfo(fi.name, fi.qualname, node, fi.module, fi.cls)
+    node._info = v  # type: ignore[attr-defined]
+    return v
+
+
 def _make_view(repo, fi: FuncInfo) -> FuncInfo:
     interesting = False
+    if any(isinstance(n, ast.For) and isinstance(strip_cast(n.iter), (ast.GeneratorExp, ast.ListComp, ast.Call)) or
+           isinstance(n, ast.Assign) and isinstance(strip_cast(n.value), (ast.ListComp, ast.Call)) and len(n.targets) == 1 and isinstance(n.targets[0], ast.Name)
+           for n in walk_no_nested(fi.node)):
+        node0 = clone(fi.node)
+        lp = _LoopPipelines(fi, node0)
+        node0.body = lp.block(node0.body)
+        if lp.changed:
+            return _make_view(repo, _derived(fi, node0))
+    if any(isinstance(n, ast.Match) for n in ast.walk(fi.node)):
+        node0 = clone(fi.node)
+        md = _MatchDesugar(repo, fi)
+        node0.body = md.block(node0.body)
+        if md.changed:
+            ast.fix_missing_locations(node0)
+            set_parents(node0)
+            v0 = FuncInfo(fi.name, fi.qualname, node0, fi.module, fi.cls)
+            node0._info = v0  # type: ignore[attr-defined]
+            v1 = _make_view(repo, v0)
+            return v1
     for n in ast.walk(fi.node):
         if isinstance(n, ast.For) and (isinstance(strip_cast(n.iter), (ast.Tuple, ast.List, ast.Dict, ast.Name, ast.Attribute))
                                        or isinstance(n.iter, ast.Call) and isinstance(n.iter.func, ast.Attribute) and isinstance(n.iter.func.value, ast.Dict)):
@@ -744,11 +2010,23 @@ def _make_view(repo, fi: FuncInfo) -> FuncInfo:
             interesting = True
         elif isinstance(n, ast.Subscript) and isinstance(n.value, ast.Dict):
             interesting = True
+        elif isinstance(n, ast.Call) and isinstance(n.func, ast.Name) and n.func.id in ("any", "all") and _fold_quantifier(n) is not None:
+            interesting = True
+        elif isinstance(n, ast.Call) and ((_std_callee(fi, n.func) or ("",))[0] in ("operator", "functools", "itertools", "collections") or isinstance(n.func, ast.Call)):
+            interesting = True
+        elif isinstance(n, ast.Compare) and len(n.ops) == 1 and isinstance(n.ops[0], (ast.In, ast.NotIn)) and not isinstance(strip_cast(n.comparators[0]), (ast.Name, ast.Attribute)):
+            interesting = True
     if not interesting:
         return fi
     node = clone(fi.node)
+    fs = _FoldStd(repo, fi)
+    node = fs.visit(node)
     un = _Unroller(repo, fi, node)
     node.body = un.block(node.body)
+    if fs.changed:
+        un.changed = True
+    if _fold_bool_positions(node, fi):
+        un.changed = True
 
     def has_attr(base: ast.AST, name: str) -> bool:
         if not (isinstance(base, ast.Name) and base.id == "self" and fi.cls is not None):
@@ -879,6 +2157,17 @@ def _is_increment(st: ast.stmt, target: str) -> bool:
     return False
 
 
+def _increments(fi: FuncInfo, st: ast.stmt, target: str) -> bool:
+    """_is_increment with the counter named through a local alias of its owner (`route = self.relays[k]` ... `route.n += 1`)."""
+    t = st.target if isinstance(st, ast.AugAssign) else st.targets[0] if isinstance(st, ast.Assign) and len(st.targets) == 1 else None
+    if t is None or target not in _texts(fi, t):
+        return False
+    return any(_is_increment(st, x) for x in _texts(fi, t)[:1])
+
+
+ROUTE_OF_CELL = "self.relays[cell.circuit_id]"
+
+
 def _snapshot_items_of(it: ast.AST) -> str | None:
     """`list(T.items())`, `tuple(...)`, `sorted(...)`, `T.copy().items()`, `dict(T).items()` -> chain of T (a copy is iterated)."""
     it = strip_cast(it)
@@ -896,8 +2185,11 @@ def _snapshot_items_of(it: ast.AST) -> str | None:
 def _snapshot_base(base: ast.AST) -> str | None:
     if isinstance(base, ast.Call) and isinstance(base.func, ast.Attribute) and base.func.attr == "copy" and not base.args:
         return chain(base.func.value)
-    if isinstance(base, ast.Call) and isinstance(base.func, ast.Name) and base.func.id == "dict" and len(base.args) == 1 and not base.keywords:
+    if isinstance(base, ast.Call) and (isinstance(base.func, ast.Name) and base.func.id in ("dict", "copy") or chain(base.func) == "copy.copy") \
+            and len(base.args) == 1 and not base.keywords:
         return chain(base.args[0])
+    if isinstance(base, ast.Dict) and len(base.keys) == 1 and base.keys[0] is None:                 # {**T}
+        return chain(base.values[0])
     return None
 
 
@@ -922,6 +2214,8 @@ def _traversal(fi: FuncInfo, it: ast.AST):
         return _snapshot_base(base), rchain(fi, base)
 
     it = strip_cast(resolve(fi, it))
+    if isinstance(it, (ast.List, ast.Tuple)) and len(it.elts) == 1 and isinstance(it.elts[0], ast.Starred):     # [*T.items()]
+        it = ast.Call(func=ast.Name(id="list", ctx=ast.Load()), args=[it.elts[0].value], keywords=[])
     if isinstance(it, ast.Call) and isinstance(it.func, ast.Name) and it.func.id in ("list", "tuple", "sorted") and len(it.args) == 1:
         inner = strip_cast(resolve(fi, it.args[0]))
         if isinstance(inner, ast.Call) and isinstance(inner.func, ast.Attribute) and inner.func.attr in ("items", "keys", "values") and not inner.args:
@@ -938,6 +2232,15 @@ def _traversal(fi: FuncInfo, it: ast.AST):
     return (snap, "keys") if snap else None
 
 
+def _loop_unpacks(l: ast.For) -> list:
+    """`a, b = item` statements of the loop body for a loop `for item in ...` (the pair is unpacked inside instead of in the header)."""
+    if not isinstance(l.target, ast.Name):
+        return []
+    return [st for st in ast.walk(l) if isinstance(st, ast.Assign) and len(st.targets) == 1 and isinstance(st.targets[0], (ast.Tuple, ast.List))
+            and len(st.targets[0].elts) == 2 and all(isinstance(e, ast.Name) for e in st.targets[0].elts)
+            and isinstance(strip_cast(st.value), ast.Name) and strip_cast(st.value).id == l.target.id]
+
+
 def _entry_texts(l: ast.For, table: str, kind: str):
     """(texts naming the entry's circuit id, texts naming the entry object, loop variable names) for one sweep loop."""
     t = l.target
@@ -945,7 +2248,8 @@ def _entry_texts(l: ast.For, table: str, kind: str):
         if isinstance(t, ast.Tuple) and len(t.elts) == 2 and all(isinstance(e, ast.Name) for e in t.elts):
             return [t.elts[0].id], [t.elts[1].id], {t.elts[0].id, t.elts[1].id}
         if isinstance(t, ast.Name):
-            return [f"{t.id}[0]"], [f"{t.id}[1]"], {t.id}
+            ups = _loop_unpacks(l)
+            return [f"{t.id}[0]", *[u.targets[0].elts[0].id for u in ups]], [f"{t.id}[1]", *[u.targets[0].elts[1].id for u in ups]], {t.id}
     elif kind == "keys" and isinstance(t, ast.Name):
         return [t.id], [f"{table}[{t.id}]", f"{table}.get({t.id})", f"{table}.get({t.id}, None)"], {t.id}
     elif kind == "values" and isinstance(t, ast.Name) and table != "self.relay_from_to":     # a relay's circuit_id is the far side's key
@@ -1086,47 +2390,53 @@ def rule_sweep(ctx: Ctx) -> None:
     sites = _sweep_sites(ctx, fi)
     for table, (remover, need_age) in SWEEP.items():
         lp = [s for s in sites if s[2] == table]
-        ctx.check(len(lp) == 1, "sweep-coverage", fi, fi.node, f"do_remove iterates a copy of {table}",
+        ctx.check(len(lp) >= 1, "sweep-coverage", fi, fi.node, f"do_remove iterates a copy of {table}",
                   f"do_remove has no loop over list({table}.items()): entries of that table are never swept")
-        if len(lp) != 1:
+        if not lp:
             continue
-        f, l, _, kind, consumer = lp[0]
-        cfg = ctx.cfg(f)
-        names = _entry_texts(l, table, kind)
-        if names is None:
-            raise AnalysisError(f"undecided: the sweep loop `{norm(l.target)} in {norm(l.iter)}` binds the entries of {table} in a way this rule does not follow")
-        ids, objs, pinned_names = names
-        idset = set(ids)
-        # no early exit from the sweep
-        early = [n for n in ast.walk(l) if isinstance(n, (ast.Break, ast.Return))]
-        ctx.check(not early, "sweep-coverage", f, l, f"sweep over {table} examines every entry", f"the sweep over {table} can stop early")
-        if consumer is not None:
-            early2 = [n for n in ast.walk(consumer[1]) if isinstance(n, (ast.Break, ast.Return))]
-            ctx.check(not early2, "sweep-coverage", consumer[0], consumer[1], f"consumer of the sweep over {table} handles every entry",
-                      f"the loop that removes the swept entries of {table} can stop early")
-        loopn = cfg.nodes_for(l)
-        starts = [v for n in loopn for v, lab in n.succ if lab is True]
-        sinks = _remover_sinks(f, cfg, l, remover, idset) + _deferred_sinks(ctx, f, cfg, l, idset, remover, consumer)
+        # the sweep may be split into several passes over (copies of) the table: every pass examines every entry, and for each
+        # limit there is a pass, run on every normal path, that removes every entry over the limit
+        verdicts = []
+        for f, l, _, kind, consumer in lp:
+            cfg = ctx.cfg(f)
+            names = _entry_texts(l, table, kind)
+            if names is None:
+                raise AnalysisError(f"undecided: the sweep loop `{norm(l.target)} in {norm(l.iter)}` binds the entries of {table} in a way this rule does not follow")
+            ids, objs, pinned_names = names
+            idset = set(ids)
+            # no early exit from the sweep
+            early = [n for n in ast.walk(l) if isinstance(n, (ast.Break, ast.Return))]
+            ctx.check(not early, "sweep-coverage", f, l, f"sweep over {table} examines every entry", f"the sweep over {table} can stop early")
+            if consumer is not None:
+                early2 = [n for n in ast.walk(consumer[1]) if isinstance(n, (ast.Break, ast.Return))]
+                ctx.check(not early2, "sweep-coverage", consumer[0], consumer[1], f"consumer of the sweep over {table} handles every entry",
+                          f"the loop that removes the swept entries of {table} can stop early")
+            loopn = cfg.nodes_for(l)
+            starts = [v for n in loopn for v, lab in n.succ if lab is True]
+            sinks = _remover_sinks(f, cfg, l, remover, idset) + _deferred_sinks(ctx, f, cfg, l, idset, remover, consumer)
+            always = len(lp) == 1 or consumer is not None or cfg.exit not in cfg.reach(cut_nodes=loopn, follow_exc=False)
 
-        def removed_under(assume: dict) -> bool:
-            """Under the assumption about *this* entry, no normal run of the loop body gets to the next entry without handing it to the remover."""
-            if not sinks or not starts:
-                return False
-            w = _World(f, cfg, assume, pinned=loopn)
-            r = w.reach(starts, cut_nodes=sinks, follow_exc=False)
-            return not any(n in r for n in loopn) and cfg.exit not in r
+            def removed_under(assume: dict, f=f, l=l, cfg=cfg, loopn=loopn, starts=starts, sinks=sinks, always=always) -> bool:
+                """Under the assumption about *this* entry, no normal run of the loop body gets to the next entry without handing it to the remover."""
+                if not sinks or not starts or not always:
+                    return False
+                w = _World(f, cfg, assume, pinned=[*loopn, *[n for u in _loop_unpacks(l) for n in cfg.nodes_for(u)]], ctx=ctx)
+                r = w.reach(starts, cut_nodes=sinks, follow_exc=False)
+                return not any(n in r for n in loopn) and cfg.exit not in r
 
-        # the inactivity test must be the *only* condition of the removal (besides `state == READY` for own circuits): an
-        # extra conjunct is unknown under the assumption, leaves a path around the removal, and is reported
-        idle = {}
-        for o in objs:
-            idle[_K("lt", f"{o}.last_activity", "time.time() - self.settings.max_time_inactive")] = True
-            idle[_K("eq", f"{o}.state", "CIRCUIT_STATE_READY")] = True
-        ctx.check(removed_under(idle), "sweep-coverage", f, l, f"{table}: entry removed when last_activity < now - max_time_inactive",
+            # the inactivity test must be the *only* condition of the removal (besides `state == READY` for own circuits): an
+            # extra conjunct is unknown under the assumption, leaves a path around the removal, and is reported
+            idle = {}
+            for o in objs:
+                idle[_K("lt", f"{o}.last_activity", "time.time() - self.settings.max_time_inactive")] = True
+                idle[_K("eq", f"{o}.state", "CIRCUIT_STATE_READY")] = True
+            old = {_K("lt", f"{o}.creation_time", f"time.time() - self.get_max_time({i})"): True for o in objs for i in ids}
+            verdicts.append((f, l, removed_under(idle), removed_under(old) if need_age else True))
+        f, l = verdicts[0][0], verdicts[0][1]
+        ctx.check(any(v[2] for v in verdicts), "sweep-coverage", f, l, f"{table}: entry removed when last_activity < now - max_time_inactive",
                   f"entries of {table} are not removed by inactivity: an abandoned entry lives forever if the destroy is lost")
         if need_age:
-            old = {_K("lt", f"{o}.creation_time", f"time.time() - self.get_max_time({i})"): True for o in objs for i in ids}
-            ctx.check(removed_under(old), "sweep-coverage", f, l, f"{table}: entry removed when older than get_max_time",
+            ctx.check(any(v[3] for v in verdicts), "sweep-coverage", f, l, f"{table}: entry removed when older than get_max_time",
                       f"entries of {table} are not removed by age")
     # do_circuits -> do_remove on every path; registered periodically
     dc = _meth(ctx, "TunnelCommunity", "do_circuits", TC)
@@ -1203,6 +2513,25 @@ def _removal_nodes(ctx: Ctx, f: FuncInfo, table: str, cid: str, depth: int = 1):
     return pops + dels, nodes
 
 
+def _always_is(ctx: Ctx, fi: FuncInfo, e: ast.AST | None, site: ast.AST, wanted) -> bool:
+    """
+    Whatever way the value of e at `site` was computed, it is one of the `wanted` expressions: as written, through local
+    aliases, or through every definition of a local that can reach the site (a 'no delay' None that is tested away before the
+    site does not reach it).
+    """
+    if e is None:
+        return False
+    if set(_texts(fi, e)) & set(wanted):
+        return True
+    cfg = ctx.cfg(fi)
+    w = _World(fi, cfg, {}, ctx=ctx)
+    for n in cfg.nodes_for(site):
+        vals = w.exprs_at(e, n)
+        if not vals or not all(set(_texts(fi, x)) & set(wanted) for x, _ in vals):
+            return False
+    return bool(cfg.nodes_for(site))
+
+
 def rule_remove_removes(ctx: Ctx) -> None:
     repo = ctx.repo
     for meth, table in (("remove_circuit", "self.circuits"), ("remove_relay", "self.relay_from_to"), ("remove_exit_socket", "self.exit_sockets")):
@@ -1221,7 +2550,7 @@ def rule_remove_removes(ctx: Ctx) -> None:
                   f"{meth} can return without removing the entry (a path around the pop)")
         # the sleep is the configured delay
         for s in calls(fi, "sleep"):
-            ctx.check("self.settings.remove_tunnel_delay" in _texts(fi, arg(s, 0, "delay")), "remove-removes", fi, s,
+            ctx.check(_always_is(ctx, fi, arg(s, 0, "delay"), s, ("self.settings.remove_tunnel_delay",)), "remove-removes", fi, s,
                       "removal delayed by settings.remove_tunnel_delay only", "removal sleeps for something other than the configured delay")
         ctx.check("task" in fi.decorator_names(), "remove-removes", fi, fi.node, f"{meth} runs as a tracked task", f"{meth} is not a @task")
     fi = _meth(ctx, "TunnelCommunity", "remove_exit_socket", TC)
@@ -1229,11 +2558,28 @@ def rule_remove_removes(ctx: Ctx) -> None:
     closes = [c for c in calls(fi) if call_name(c) == "close"]
     shuts = [c for c in calls(fi) if call_name(c) == "shutdown_task_manager"]
     popvar, popst = None, None
+    cidp = fi.params()[1]
     for st in walk_no_nested(fi.node):
-        if isinstance(st, (ast.Assign, ast.AnnAssign)) and isinstance(strip_cast(st.value), ast.Call) and _pops_entry(fi, strip_cast(st.value), "self.exit_sockets", {fi.params()[1]}):
+        if isinstance(st, (ast.Assign, ast.AnnAssign)) and isinstance(strip_cast(st.value), ast.Call) and _pops_entry(fi, strip_cast(st.value), "self.exit_sockets", {cidp}):
             t = st.targets[0] if isinstance(st, ast.Assign) else st.target
             if isinstance(t, ast.Name):
                 popvar, popst = t.id, st
+    if popvar is None:
+        pn = _removal_nodes(ctx, fi, "self.exit_sockets", cidp)[1]
+        # looked up first (`x = self.exit_sockets.get(id)` / `[id]`) and taken out with `del` / a bare pop: x is the removed socket
+        for st in walk_no_nested(fi.node):
+            if not (isinstance(st, (ast.Assign, ast.AnnAssign)) and st.value is not None):
+                continue
+            v = strip_cast(st.value)
+            t = st.targets[0] if isinstance(st, ast.Assign) else st.target
+            looked = isinstance(v, ast.Call) and call_name(v) == "get" and isinstance(v.func, ast.Attribute) and rchain(fi, v.func.value) == "self.exit_sockets" \
+                and arg(v, 0) is not None and cidp in _texts(fi, arg(v, 0)) and (len(v.args) == 1 or isinstance(v.args[1], ast.Constant) and v.args[1].value is None) \
+                or isinstance(v, ast.Subscript) and rchain(fi, v.value) == "self.exit_sockets" and cidp in _texts(fi, v.slice)
+            if looked and isinstance(t, ast.Name) and single_def(fi, t.id) is not None and any(chain(c.func) == f"{t.id}.close" for c in closes):
+                # the entry taken out is the one that was looked up: nothing suspends between the look-up and the removal
+                ln = cfg.nodes_for(st)
+                if pn and all(cfg.must_complete(x, ln) for x in pn) and not _suspends_between(ctx, fi, ln, pn):
+                    popvar, popst = t.id, st
     ok = popvar is not None and any(chain(c.func) == f"{popvar}.close" for c in closes) and any(chain(c.func) == f"{popvar}.shutdown_task_manager" for c in shuts)
     ctx.check(ok, "remove-removes", fi, fi.node, "popped exit socket is closed (if enabled) and its task manager shut down",
               "the removed exit socket's outside sockets / tasks are not released")
@@ -1265,6 +2611,108 @@ def rule_remove_removes(ctx: Ctx) -> None:
     ctx.check(tc == want, "remove-removes", cl, cl.node,
               "TunnelExitSocket.close closes both transports", f"TunnelExitSocket.close closes {tc}")
     _rule_exit_entries_leave_through_remover(ctx)
+    _rule_exit_entries_not_overwritten(ctx)
+
+
+def _table_inserts(f: FuncInfo, table: str):
+    """(statement, target) of every `<table>[key] = value` in f (the table possibly through a local alias)."""
+    out = []
+    for st, t in stores(f, lambda ch: ch.endswith("[]")):
+        if isinstance(t, ast.Subscript) and isinstance(t.ctx, ast.Store) and isinstance(st, (ast.Assign, ast.AnnAssign)) and rchain(f, t.value) == table:
+            out.append((st, t))
+    return out
+
+
+def _present_keys(f: FuncInfo, key: ast.AST, table: str) -> dict:
+    """The assumption "the table already has an entry under this key", in the spellings a test for it can take."""
+    out = {}
+    for kt in _texts(f, key):
+        out[_K("in", kt, table)] = True
+        out[_K("in", kt, f"{table}.keys()")] = True
+        for g in (f"{table}.get({kt})", f"{table}.get({kt}, None)"):
+            out[_K("is", g, "None")] = False
+            out[_K("truthy", g)] = True
+    return out
+
+
+def _mentions_table(f: FuncInfo, e: ast.AST, table: str, depth: int = 2) -> bool:
+    for x in ast.walk(e):
+        if isinstance(x, ast.Attribute) and rchain(f, x) == table:
+            return True
+        if isinstance(x, ast.Name) and depth > 0 and not is_param(f, x.id):
+            if any(v is not None and _mentions_table(f, v, table, depth - 1) for _, v, _i in local_defs(f, x.id)):
+                return True
+    return False
+
+
+def _insert_guarded(ctx: Ctx, f: FuncInfo, site: ast.AST, key: ast.AST, table: str, depth: int = 2) -> bool:
+    """
+    `site` (the insertion, or a call that leads to it) cannot be reached in f while the table holds an entry under `key` -
+    the test may also sit in every caller of f (the key followed back through the arguments).  A test on the table that this
+    rule cannot read makes the question undecided.
+    """
+    cfg = ctx.cfg(f)
+    w = _World(f, cfg, _present_keys(f, key, table), ctx=ctx)
+    if not w.reaches(site):
+        return True
+    if depth > 0:
+        exp = _Expand(f).visit(_clone(key))
+        names = {n.id for n in ast.walk(exp) if isinstance(n, ast.Name)}
+        users = [(g, c) for m, g, c in ctx.repo.callers_of_name(f.name) if g is not None and m.relpath.startswith("ipv8/") and g.node is not f.node
+                 and not (isinstance(c.func, ast.Attribute) and not (isinstance(c.func.value, ast.Name) and c.func.value.id in ("self", "cls", "community", "overlay")))]
+        if users and all(n in f.params() or n in ("self",) or n.isupper() for n in names) and not any(local_defs(f, n) for n in names):
+            ok = True
+            for g, c in users:
+                bound = _bind_args(f, c)
+                if any(n in f.params() and n not in ("self", "cls") and n not in bound for n in names):
+                    ok = False
+                    break
+                k2 = _Subst({k: v for k, v in bound.items()}).visit(_clone(exp))
+                ast.fix_missing_locations(k2)
+                if not _insert_guarded(ctx, g, c, k2, table, depth - 1):
+                    ok = False
+                    break
+            if ok:
+                return True
+    # a test that involves the table but is written in a way this rule does not evaluate, on a way to the site
+    live = w.reach()
+    sn = set(cfg.nodes_for(site))
+    for u in live:
+        if u.kind == "cond" and u.ast is not None and _mentions_table(f, u.ast, table) and None in w.ev(u.ast, u) \
+                and sn & cfg.reach([v for v, lab in u.succ if lab != "exc"]):
+            raise AnalysisError(f"undecided: {f.qualname} tests `{norm(u.ast)[:80]}` before it stores into {table}; whether that excludes an existing "
+                                "entry under the same key cannot be read off the code")
+    return False
+
+
+def _rule_exit_entries_not_overwritten(ctx: Ctx) -> None:
+    """
+    An exit socket can only be closed by remove_exit_socket(), which finds it through exit_sockets[circuit id].  Storing a new
+    socket under an id that is still in the table drops the old one from every table without closing it: no destroy, no
+    inactivity / age sweep and no unload reaches its outside sockets any more.  So every insertion must be unreachable while
+    the key is present (tested in the inserting function or in all of its callers).
+    """
+    repo = ctx.repo
+    rule = "remove-removes"
+    table = "self.exit_sockets"
+    n = 0
+    seen = set()
+    for m, fi0, a in repo.attribute_uses("exit_sockets"):
+        if fi0 is None or not m.relpath.startswith("ipv8/") or fi0.qualname in seen or fi0.name == "__init__":
+            continue
+        seen.add(fi0.qualname)
+        fi = _view(ctx, fi0)
+        for c in calls(fi):
+            if call_name(c) in ("update", "__setitem__", "__ior__") and isinstance(c.func, ast.Attribute) and rchain(fi, c.func.value) == table:
+                raise AnalysisError(f"undecided: {fi.qualname} stores into exit_sockets through `{norm(c)[:60]}`: which keys that overwrites is not followed")
+        for st, t in _table_inserts(fi, table):
+            n += 1
+            ctx.check(_insert_guarded(ctx, fi, st, t.slice, table), rule, fi, st,
+                      f"{fi.qualname}: a new exit socket is stored only under an id that is not in exit_sockets",
+                      f"{fi.qualname} stores a new entry into exit_sockets (`{norm(st)[:70]}`) although an entry under the same circuit id may still be there "
+                      "(no `id in self.exit_sockets` refusal on the way, here or in the callers): the socket that was there drops out of the table without "
+                      "remove_exit_socket(), so its outside sockets are never closed - not by a destroy, not by the inactivity/age sweep, not by unload")
+    ctx.floor("remove-removes.exit-table-inserts", n, 1)
 
 
 EXIT_TABLE_REMOVERS = ("TunnelCommunity.remove_exit_socket",)
@@ -1342,7 +2790,17 @@ def rule_destroy_propagates(ctx: Ctx) -> None:
         ctx.check(len(hc) == 1, "destroy-propagates", f2, f2.node, f"{meth} sends destroy via {helper} when asked", f"{meth} no longer sends destroy")
         for c in hc:
             fs = _facts(f2, cfg, c)
-            ctx.check(any(g.op == "truthy" and g.pos and chain(g.left) == "destroy" for g in fs), "destroy-propagates", f2, c,
+            ok = any(g.op == "truthy" and g.pos and chain(g.left) == "destroy" for g in fs)
+            if not ok and "destroy" in f2.params() and not local_defs(f2, "destroy"):
+                # any other shape of the test, here or at the top of the sending helper (guard moved into the callee): with a
+                # falsy `destroy` no destroy message can be sent
+                off = {_K("truthy", "destroy"): False}
+                ok = _World(f2, cfg, off, ctx=ctx).reaches(c) is False
+                if not ok:
+                    hf = _meth(ctx, "TunnelCommunity", helper, TC)
+                    sends = [[(f2, c), (hf, sc_)] for sc_ in calls(hf, "self.send_destroy")]
+                    ok = bool(sends) and all(_blocked_under(ctx, chn, off) == (True, True) for chn in sends)
+            ctx.check(ok, "destroy-propagates", f2, c,
                       f"{helper} under truthy destroy", "destroy sending is not controlled by the destroy argument")
             # before the entry is popped
             pops = [n for p in calls(f2) if call_name(p) == "pop" and "request_cache" not in (chain(p.func) or "") for n in cfg.nodes_for(p)]
@@ -1408,7 +2866,7 @@ def _blocked_under(ctx: Ctx, ch, assume: dict) -> tuple[bool, bool]:
     for i, (f, c) in enumerate(ch):
         cfg = ctx.cfg(f)
         live = live and any(n in cfg.reach() for n in cfg.nodes_for(c))
-        if _World(f, cfg, cur).reaches(c) is False:
+        if _World(f, cfg, cur, ctx=ctx).reaches(c) is False:
             blocked = True
         if i + 1 < len(ch):
             g = ch[i + 1][0]
@@ -1424,6 +2882,164 @@ def _blocked_under(ctx: Ctx, ch, assume: dict) -> tuple[bool, bool]:
                     nxt[k2] = v
             cur = nxt
     return live, blocked
+
+
+# ------------------------------------------------------------------------------------ check-then-act without suspension
+def _node_awaits(n) -> list:
+    """Suspension points evaluated at CFG node n: await expressions, `async for` / `async with` headers."""
+    a = n.ast
+    if a is None or n.kind not in ("stmt", "cond", "loop"):
+        return []
+    if n.kind == "loop":
+        return [a] if isinstance(a, ast.AsyncFor) else []
+    if isinstance(a, (ast.With, ast.AsyncWith)):
+        out = [a] if isinstance(a, ast.AsyncWith) else []
+        for i in a.items:
+            out += [x for x in walk_no_nested(i.context_expr) if isinstance(x, ast.Await)]
+        return out
+    if isinstance(a, (ast.FunctionDef, ast.AsyncFunctionDef, ast.ClassDef, ast.Try, ast.ExceptHandler)):
+        return []
+    return [x for x in walk_no_nested(a) if isinstance(x, ast.Await)]
+
+
+def _is_generator(fi: FuncInfo) -> bool:
+    return any(isinstance(n, (ast.Yield, ast.YieldFrom)) for n in walk_no_nested(fi.node))
+
+
+def _may_suspend(ctx: Ctx, fi: FuncInfo, aw: ast.AST, depth: int = 2) -> bool:
+    """
+    Can the event loop run something else at this await?  Awaiting a coroutine function of the repository whose body never
+    suspends runs it to completion synchronously; everything else (futures, sleep, executors, unknown callees) may suspend.
+    """
+    if not isinstance(aw, ast.Await):
+        return True
+    v = strip_cast(aw.value)
+    if isinstance(v, ast.Call) and depth > 0:
+        try:
+            ts = ctx.repo.resolve_call(fi, v)
+        except Exception:  # noqa: BLE001
+            ts = []
+        if ts and all(t.is_async and not _is_generator(t) and "task" not in t.decorator_names() and not _suspends_between(ctx, _view(ctx, t), None, None, depth=depth - 1)
+                      for t in ts):
+            return False
+    return True
+
+
+def _suspends_between(ctx: Ctx, f: FuncInfo, starts, targets, skip=(), depth: int = 2) -> list:
+    """
+    Suspension points on a way from `starts` (CFG nodes; None = function entry) to `targets` (None = any way out), the start
+    nodes themselves and the awaits that wrap a call in `skip` excluded.
+    """
+    cfg = ctx.cfg(f)
+    fwd = cfg.reach() if starts is None else cfg.reach([v for s_ in starts for v, lab in s_.succ])
+    if targets is None:
+        mid = fwd
+    else:
+        back, todo = set(), list(targets)
+        while todo:
+            u = todo.pop()
+            if u in back:
+                continue
+            back.add(u)
+            todo.extend(p_ for p_, _ in u.pred)
+        mid = fwd & back
+    out = []
+    for n in sorted(mid, key=lambda n: n.id):
+        if starts is not None and n in starts and n not in (targets or ()):
+            continue
+        for aw in _node_awaits(n):
+            if isinstance(aw, ast.Await) and any(strip_cast(aw.value) is c for c in skip):
+                continue
+            if _may_suspend(ctx, f, aw, depth):
+                out.append(aw)
+    return out
+
+
+def _leads_to(ctx: Ctx, f: FuncInfo, is_site, depth: int = 2, _stack=()) -> list:
+    """[(node of f, (helper, ...) | None)]: statements of f that are such a site, or call a NEW helper that (transitively) contains one."""
+    out = []
+    for st in walk_no_nested(f.node):
+        if isinstance(st, (ast.stmt, ast.expr)) and is_site(f, st):
+            out.append((st, None))
+    if depth > 0:
+        for c in calls(f):
+            for g0 in _new_helper_targets(ctx.repo, f, c):
+                if g0.qualname in _stack:
+                    continue
+                g = _view(ctx, g0)
+                if _leads_to(ctx, g, is_site, depth - 1, _stack + (f.qualname,)):
+                    out.append((c, g))
+    return out
+
+
+def _rule_limit_atomic(ctx: Ctx) -> None:
+    """
+    The joined-circuit limit only holds if "count the joined circuits - admit - put the new one into the table" happens without
+    giving the event loop a chance to run another CREATE in between: every request that is checked during such a gap sees the
+    same, not yet updated, count, and all of them are admitted (a burst pushes the node over its limit).  So from the place the
+    tables are counted to the place the new exit socket is stored there must be no suspension point (an await of anything
+    but a repository coroutine that never suspends, `async for`, `async with`), across should_join_circuit -> on_create ->
+    join_circuit and the NEW helpers they use.
+    """
+    rule = "join-limit"
+    why = ("a CREATE that arrives while this one is suspended is checked against the same, not yet updated, number of joined circuits: a burst of "
+           "requests is admitted beyond max_joined_circuits")
+    sj = _meth(ctx, "TunnelCommunity", "should_join_circuit", TC)
+    oc = _meth(ctx, "TunnelCommunity", "on_create", TC)
+    jc = _meth(ctx, "TunnelCommunity", "join_circuit", TC)
+
+    def counts_tables(f: FuncInfo, st: ast.AST) -> bool:
+        return isinstance(st, ast.Attribute) and st.attr in ("relay_from_to", "exit_sockets") and rchain(f, st) in ("self.relay_from_to", "self.exit_sockets")
+
+    def is_insert(f: FuncInfo, st: ast.AST) -> bool:
+        return isinstance(st, ast.stmt) and any(s_ is st for s_, _ in _table_inserts(f, "self.exit_sockets"))
+
+    def verdict_call(f: FuncInfo, st: ast.AST) -> bool:
+        return isinstance(st, ast.Call) and chain(st.func) == "self.should_join_circuit"
+
+    def prefix_atomic(f: FuncInfo, starts, sites, what: str, depth: int = 2) -> None:
+        """No suspension from `starts` (None = entry of f) to the sites of f; a site that is a helper call is followed into the helper."""
+        cfg = ctx.cfg(f)
+        tn = [n for st, _ in sites for n in cfg.nodes_for(st)]
+        bad = _suspends_between(ctx, f, starts, tn, skip=[st for st, _ in sites if isinstance(st, ast.Call)])
+        ctx.check(not bad, rule, f, bad[0] if bad else f.node, f"{f.qualname}: no suspension point {what}",
+                  f"{f.qualname} can suspend (`{norm(bad[0])[:70]}`) {what}: {why}" if bad else "")
+        for st, g in sites:
+            if g is not None and depth > 0:
+                prefix_atomic(g, None, _leads_to(ctx, g, is_insert), "before the new exit socket is stored", depth - 1)
+
+    # (A) inside the verdict: from the place the tables are counted to the return
+    cfg = ctx.cfg(sj)
+    cn = [n for st, _ in _leads_to(ctx, sj, counts_tables, depth=0) for n in cfg.nodes_for(st)]
+    if cn:
+        bad = _suspends_between(ctx, sj, cn, None)
+        ctx.check(not bad, rule, sj, bad[0] if bad else sj.node, "should_join_circuit: no suspension point between counting the joined circuits and returning the verdict",
+                  f"should_join_circuit can suspend (`{norm(bad[0])[:70]}`) after it has counted the joined circuits: {why}" if bad else "")
+    # (B) from the verdict to the join, (C) from there to the insertion
+    for ch in _site_chains(ctx, oc, "self.join_circuit"):
+        seen_verdict = False
+        for lvl, (f, c) in enumerate(ch):
+            cfgf = ctx.cfg(f)
+            vs = _leads_to(ctx, f, verdict_call, depth=1)
+            vn = [n for st, _ in vs for n in cfgf.nodes_for(st)]
+            if vn and not seen_verdict:
+                seen_verdict = True
+                prefix_atomic(f, vn, [(c, None)], "between the verdict of should_join_circuit and the join", 0)
+                for st, g in vs:
+                    if g is not None:                               # the verdict is obtained inside a helper: nothing may suspend after it there
+                        gv = [n for s2, _ in _leads_to(ctx, g, verdict_call, depth=0) for n in ctx.cfg(g).nodes_for(s2)]
+                        bad = _suspends_between(ctx, g, gv, None) if gv else []
+                        ctx.check(not bad, rule, g, bad[0] if bad else g.node, f"{g.qualname}: no suspension point after the verdict",
+                                  f"{g.qualname} can suspend (`{norm(bad[0])[:70]}`) after the verdict of should_join_circuit: {why}" if bad else "")
+            elif seen_verdict:
+                prefix_atomic(f, None, [(c, None)], "before it joins the circuit", 0)
+        f, c = ch[-1]
+        awaited = isinstance(getattr(c, "_parent", None), ast.Await)
+        ctx.check(awaited == bool(jc.is_async), rule, f, c, "join_circuit runs to its table update as part of the handler (called, or awaited when a coroutine)",
+                  f"join_circuit is {'a coroutine that is only scheduled here' if jc.is_async else 'not a coroutine but awaited'}: the table is updated at some later time; {why}")
+    sites = _leads_to(ctx, jc, is_insert)
+    ctx.anchor(sites, "insertion into exit_sockets in join_circuit")
+    prefix_atomic(jc, None, sites, "between its entry (the request was admitted) and storing the new exit socket")
 
 
 def _return_sites(fi: FuncInfo):
@@ -1444,14 +3060,32 @@ def rule_limits(ctx: Ctx) -> None:
                 if isinstance(r, ast.Call) and chain(r.func) == "self.should_join_circuit":
                     ok = True
         f, c = ch[-1]
+        if not ok:
+            # the verdict travels in another form (a record field, a tag, a helper's return value): with a falsy verdict the join
+            # must be out of reach, whatever shape the test has
+            assume = {}
+            for f0, _c0 in ch:
+                for vc in calls(f0, "self.should_join_circuit"):
+                    par = getattr(vc, "_parent", None)
+                    assume[_K("truthy", norm(par if isinstance(par, ast.Await) else vc))] = False
+            if assume:
+                live, blocked = _blocked_under(ctx, ch, assume)
+                ok = live and blocked
         ctx.check(ok, "join-limit", f, c, "join_circuit dominated by a truthy should_join_circuit", "a create is joined without consulting the join limit",
                   [str(g) for g in fs])
     sj = _meth(ctx, "TunnelCommunity", "should_join_circuit", TC)
     cfgs = ctx.cfg(sj)
     # at the limit (`not relays + exits < max_joined_circuits`, in any spelling) every verdict that can be returned is False
-    full = _World(sj, cfgs, {_K("lt", "len(self.relay_from_to) + len(self.exit_sockets)", "self.settings.max_joined_circuits", integer=True): False})
+    at_limit = {_K("lt", "len(self.relay_from_to) + len(self.exit_sockets)", "self.settings.max_joined_circuits", integer=True): False}
+    full = _World(sj, cfgs, at_limit, ctx=ctx)
     rets = _return_sites(sj)
     refuses = False
+    chains = _site_chains(ctx, oc, "self.join_circuit")
+    if chains and all(_blocked_under(ctx, ch, at_limit) == (True, True) for ch in chains):
+        # the limit test sits in the handler itself (guard moved from the verdict function to its caller): at the limit no join is reachable
+        ctx.instance("join-limit", oc.where, "on_create cannot reach join_circuit at relays+exits >= max_joined_circuits", line=oc.node.lineno)
+        rets = []
+        refuses = None
     for r in rets:
         if not full.reaches(r):
             ctx.instance("join-limit", sj.where, "return not taken at the limit", line=r.lineno)
@@ -1467,8 +3101,9 @@ def rule_limits(ctx: Ctx) -> None:
         ctx.check(vals == {False}, "join-limit", sj, r, "at relays+exits >= max_joined_circuits the verdict is False",
                   "should_join_circuit admits a circuit at or above the joined-circuit limit" if const or True in vals else
                   "should_join_circuit returns a non-constant verdict", [f"verdict at the limit: {sorted(map(str, vals))}"])
-    ctx.check(refuses and cfgs.exit not in full.reach(cut_nodes=[n for r in rets for n in cfgs.nodes_for(r)], follow_exc=False),
+    ctx.check(refuses is None or refuses and cfgs.exit not in full.reach(cut_nodes=[n for r in rets for n in cfgs.nodes_for(r)], follow_exc=False),
               "join-limit", sj, sj.node, "a refusing branch exists", "should_join_circuit never refuses")
+    _rule_limit_atomic(ctx)
     # ---- relay_early
     rc = _meth(ctx, "PythonCryptoEndpoint", "relay_cell", CR)
     cfgr = ctx.cfg(rc)
@@ -1476,10 +3111,12 @@ def rule_limits(ctx: Ctx) -> None:
     # else is tested on the way (an extra conjunct such as a direction test leaves the send reachable and is reported)
     k_early = _K("truthy", "cell.relay_early")
     k_left = _K("lt", "next_relay.relay_early_count", "self.max_relay_early", integer=True)
+    # the same budget named through the table the route comes from (the rule below pins the route to exactly this entry)
+    k_left_entry = _K("lt", f"{ROUTE_OF_CELL}.relay_early_count", "self.max_relay_early", integer=True)
     for ch in ctx.anchor(_site_chains(ctx, rc, "self.endpoint.send"), "send in relay_cell"):
         f, s = ch[-1]
         cfgf = ctx.cfg(f)
-        live, blocked = _blocked_under(ctx, ch, {k_early: True, k_left: False})
+        live, blocked = _blocked_under(ctx, ch, {k_early: True, k_left: False, k_left_entry: False})
         ctx.check(live and blocked, "relay-early-budget", f, s,
                   "no path forwards a relay_early cell once the relay's budget is used up",
                   "a relay forwards relay_early cells beyond max_relay_early (the send is reachable with relay_early set and "
@@ -1492,7 +3129,8 @@ def rule_limits(ctx: Ctx) -> None:
             if lvl > 0:
                 back = {strip_cast(a).id: p for p, a in _bind_args(f2, ch[lvl - 1][1]).items() if isinstance(strip_cast(a), ast.Name)}
                 route = back.get("next_relay", "next_relay") if lvl == 1 else route
-            incs = [n for st in walk_no_nested(f2.node) if isinstance(st, ast.stmt) and _is_increment(st, f"{route}.relay_early_count")
+            incs = [n for st in walk_no_nested(f2.node) if isinstance(st, ast.stmt) and
+                    (_is_increment(st, f"{route}.relay_early_count") or lvl == 0 and _increments(f2, st, f"{ROUTE_OF_CELL}.relay_early_count"))
                     for n in cfg2.nodes_for(st)]
             if incs and all(cfg2.always_followed_by(sn, incs) for sn in cfg2.nodes_for(c2)):
                 ok = True
@@ -1500,7 +3138,15 @@ def rule_limits(ctx: Ctx) -> None:
         ctx.check(ok, "relay-early-budget", f, s, "every forwarded cell increments the relay's relay_early counter",
                   "forwarded relay_early cells are not counted")
     d = single_def(rc, "next_relay")
-    ctx.check(d is not None and d[1] is None and "self.relays[cell.circuit_id]" in _texts(rc, d[0]), "relay-early-budget", rc, rc.node,
+    ok = d is not None and d[1] is None and ROUTE_OF_CELL in _texts(rc, d[0])
+    if not ok and local_defs(rc, "next_relay"):
+        # several definitions (decide-then-act, a verdict record unpacked into the local): wherever the local is read for the
+        # forwarding - the send / the helper that sends, the counter - every value that can get there is that table entry
+        uses = [c for chn in _site_chains(ctx, rc, "self.endpoint.send") for c in [chn[0][1]]
+                if any(isinstance(n, ast.Name) and n.id == "next_relay" for n in ast.walk(c))]
+        probe = ast.Name(id="next_relay", ctx=ast.Load())
+        ok = bool(uses) and all(_always_is(ctx, rc, probe, c, (ROUTE_OF_CELL,)) for c in uses)
+    ctx.check(ok, "relay-early-budget", rc, rc.node,
               "budget is the one of the route the cell is relayed over", "the relay_early budget of a different route is consulted")
     mre = repo.cls("PythonCryptoEndpoint", CR).methods.get("max_relay_early")
     ok = mre is not None
@@ -1508,7 +3154,7 @@ def rule_limits(ctx: Ctx) -> None:
         cfgm = ctx.cfg(mre)
         for has, want in ((True, lambda e: norm(strip_cast(e)) == "self.settings.max_relay_early"),
                           (False, lambda e: isinstance(const_value(e), int) and not isinstance(const_value(e), bool) and const_value(e) > 0)):
-            w = _World(mre, cfgm, {_K("truthy", "self.settings"): has})
+            w = _World(mre, cfgm, {_K("truthy", "self.settings"): has}, ctx=ctx)
             seen = 0
             for r in _return_sites(mre):
                 if not w.reaches(r) or r.value is None:
@@ -1548,7 +3194,7 @@ def rule_limits(ctx: Ctx) -> None:
         for ext in (True, False):
             for own in (True, False):
                 # for a cell sent over one of our own circuits: the flag that goes out is exactly (extend or budget left)
-                w = _World(sc, cfgs2, {k_ext: ext, k_own: own, k_circ: True})
+                w = _World(sc, cfgs2, {k_ext: ext, k_own: own, k_circ: True}, ctx=ctx)
                 vals = set()
                 for n in sendn:
                     if n in w.reach():
@@ -1593,8 +3239,29 @@ def rule_retry(ctx: Ctx) -> None:
     retry = [c for f2 in ot.module.all_functions if f2.qualname.startswith("RetryRequestCache.") and (f2.qualname.startswith("RetryRequestCache.on_timeout.") or _is_new(f2))
              for c in calls(f2) if chain(c.func) == "self.retry_func"]
     retry += [c for c in calls(ot) if chain(c.func) == "self.retry_func"]
-    ctx.check(len(retry) == 1 and [norm(a) for a in retry[0].args] == ["self.circuit", "self.candidates", "self.max_tries"] and not retry[0].keywords,
-              "retry-gives-up", ot, ot.node,
+    ok = len(retry) == 1 and [norm(a) for a in retry[0].args] == ["self.circuit", "self.candidates", "self.max_tries"] and not retry[0].keywords
+    if not retry:
+        # the retry lives in a NEW function outside the cache class (a small callable object, a module-level helper) that only
+        # on_timeout uses, or is bound with functools.partial: <cache>.retry_func(<cache>.circuit, <cache>.candidates, <cache>.max_tries)
+        cands = []
+        for f2 in ot.module.all_functions:
+            if not (f2.node is ot.node or _within(f2, ("RetryRequestCache.on_timeout",)) or _is_new(f2) and _only_reached_from(repo, f2, ("RetryRequestCache.on_timeout",))):
+                continue
+            for c in calls(f2):
+                fn, args = c.func, list(c.args)
+                if isinstance(fn, ast.Name) and fn.id == "partial" or chain(fn) == "functools.partial":
+                    if not args:
+                        continue
+                    fn, args = args[0], args[1:]
+                fn = strip_cast(fn)
+                if isinstance(fn, ast.Attribute) and fn.attr == "retry_func" and not c.keywords:
+                    base = _texts(f2, fn.value)[-1]
+                    cands.append((f2, c, base, [_texts(f2, a)[-1] for a in args]))
+        ok = len(cands) == 1 and cands[0][3] == [f"{cands[0][2]}.circuit", f"{cands[0][2]}.candidates", f"{cands[0][2]}.max_tries"] \
+            and (cands[0][2] == "self" and _within(cands[0][0], ("RetryRequestCache",)) or cands[0][2] != "self" and not _within(cands[0][0], ("RetryRequestCache",))
+                 or cands[0][2].startswith("self."))
+        retry = [c for _, c, _, _ in cands]
+    ctx.check(ok, "retry-gives-up", ot, ot.node,
               "retry passes (circuit, remaining candidates, remaining tries)", "retry does not pass the remaining tries on")
     # with no tries left, or no candidate left, (and the circuit not already closing) nothing is scheduled and the circuit is removed
     k_closing = _K("eq", "self.circuit.state", "CIRCUIT_STATE_CLOSING")
@@ -1604,11 +3271,11 @@ def rule_retry(ctx: Ctx) -> None:
           [c for c in calls(ot) if chain(c.func) == "self.retry_func"]
     ctx.anchor(reg, "retry scheduling in RetryRequestCache.on_timeout")
     for c in reg:
-        bad = [name for name, a in worlds if _World(ot, cfg, a).reaches(c)]
+        bad = [name for name, a in worlds if _World(ot, cfg, a, ctx=ctx).reaches(c)]
         ctx.check(not bad, "retry-gives-up", ot, c, "retry scheduled only while max_tries >= 1 and candidates remain",
                   "the build retry is scheduled without tries left: it can retry forever", [f"reachable with {b}" for b in bad])
     for name, a in worlds:
-        w = _World(ot, cfg, a)
+        w = _World(ot, cfg, a, ctx=ctx)
         ctx.check(bool(rm) and cfg.exit not in w.reach(cut_nodes=rm, follow_exc=False), "retry-gives-up", ot, ot.node,
                   f"on_timeout removes the circuit when it gives up ({name})",
                   f"on_timeout can finish without retrying and without removing the circuit ({name}): the half-built circuit is left to the one-hour age limit")
@@ -1842,6 +3509,18 @@ WITNESSES = [
      "new": "        self.request_cache.pop(RetryRequestCache, circuit.circuit_id)\n        try:\n            shared_secret = self.crypto.verify_and_generate_shared_secret("},
     {"name": "retry does not decrease tries", "file": TC, "rule": "retry-gives-up",
      "old": "        cache = RetryRequestCache(self, circuit, alt_first_hops, max_tries - 1,", "new": "        cache = RetryRequestCache(self, circuit, alt_first_hops, max_tries,"},
+    {"name": "repeated create overwrites a live exit socket", "file": TC, "rule": "remove-removes",
+     "old": "if circuit_id in self.circuits or circuit_id in self.relay_from_to or circuit_id in self.exit_sockets:",
+     "new": "if circuit_id in self.circuits or circuit_id in self.relay_from_to:"},
+    {"name": "join suspends between the admission and the table update", "rule": "join-limit", "edits": [
+        {"file": TC, "old": "    def join_circuit(self, create_payload: CreatePayload, previous_node_address: Address) -> None:",
+         "new": "    async def join_circuit(self, create_payload: CreatePayload, previous_node_address: Address) -> None:"},
+        {"file": TC, "old": "        shared_secret, key, auth = self.crypto.generate_diffie_shared_secret(create_payload.key)\n        session_keys = self.crypto.generate_session_keys(shared_secret)\n\n        # In order to remain compatible",
+         "new": "        await sleep(0)\n        shared_secret, key, auth = self.crypto.generate_diffie_shared_secret(create_payload.key)\n        session_keys = self.crypto.generate_session_keys(shared_secret)\n\n        # In order to remain compatible"},
+        {"file": TC, "old": "            self.join_circuit(payload, source_address)\n", "new": "            await self.join_circuit(payload, source_address)\n"}]},
+    {"name": "verdict suspends after counting", "file": TC, "rule": "join-limit",
+     "old": "            return False\n        return True\n\n    def join_circuit(",
+     "new": "            return False\n        await sleep(0)\n        return True\n\n    def join_circuit("},
     {"name": "retry scheduled without tries", "file": CA, "rule": "retry-gives-up",
      "old": "        if not self.candidates or self.max_tries < 1:", "new": "        if not self.candidates:"},
 ]
